@@ -8,22 +8,41 @@ known part) — the SAME executable definition the driver evaluates on the real
 functions' outputs for the search half of this property (`judge.c12`,
 harness/c12.go).
 
-What is proved here is the part of the property that is the call FRAMEWORK's doing,
-for every stdlib spec (parameter tables regenerated from the built code on every
-check) and for ARBITRARY callbacks: whenever weakening arguments makes `Call`
-short-circuit — an argument became unknown and its parameter does not declare
-`AllowUnknown` — the unknown it returns admits the concrete result, under the
-obligation that the function's `Type` callback is monotone (unconditional for the
-statically typed functions) and, where a `RefineResult` is declared, that the
-refinement it adds is true of the concrete result.  For functions that DO accept
-unknown arguments the soundness is the function's own code: proved where the Impl is
-modelled (C13/C14: short-circuit branches inside the callbacks), searched on the real
-code otherwise — every exported function x weakenings of arguments and nested
-members to typed unknowns true of the replaced part.
+What is proved here:
+
+(1) the part of the property that is the call FRAMEWORK's doing, for every stdlib spec (parameter tables
+regenerated from the built code on every check) and for ARBITRARY callbacks: whenever weakening arguments
+makes `Call` short-circuit — an argument became unknown and its parameter does not declare `AllowUnknown` —
+the unknown it returns admits the concrete result, under the obligation that the function's `Type` callback
+is monotone (unconditional for the statically typed functions) and, where a `RefineResult` is declared, that
+the refinement it adds is true of the concrete result; no failure before `Impl`; wholly known in, wholly
+known out through `Call`;
+
+(2) (slice d12b) the COMPOSITION theorem `impl_soundness_lifts_to_call`: soundness of an `Impl` callback on a
+pair of argument lists (`ImplSoundAt`) gives "the weakened `Call` succeeds and its result admits the concrete
+result", for all specs; and the obligation discharged, function by function, for the modelled callbacks of
+Stdlib/Collection.lean, Sequence.lean and d12bStrlen.lean — the SAME definitions the C12/C13 correspondence
+diffs against the real functions on weakened arguments: `sound_length`, `sound_compact`, `sound_distinct`,
+`sound_coalescelist`, `sound_coalesce`, `sound_keys`, `sound_values`, `sound_reverse`, `sound_element`,
+`sound_sort` (length bounds), `sound_strlen` (prefix-derived lower bound), `sound_zipmap`,
+`sound_hasindex`, `sound_index`, `sound_contains_partial`, `sound_lookup_map_partial`, `sound_lookup_object`,
+`sound_concat_partial`, and the full-strength statement
+that is FALSE of the code as `SoundSetProduct` / `SoundSetHasElement` with `sound_setproduct_counterexample` /
+`sound_sethaselement_counterexample` (the recorded findings, as theorems about the model).
+Functions of primitive arguments that refuse unknowns (`upper`, `lower`, `substr`, `trim*`, `range`, …) are
+covered for ARBITRARY `Impl` by `sound_leaf_arguments` / `stdlib_static_leaf_functions_sound` (over the tables).
+Side conditions are explicit and decidable on instances; each theorem has a joint witness at the end of the
+file.  External libraries enter as parameters with named laws (`EnvConvertSound`, the segmentation law of
+`sound_strlen`), probed on the real library by the harness.
+
+For every other function that looks inside partly-unknown arguments itself the soundness is searched on the
+real code — every exported function x weakenings of arguments and nested members to typed unknowns true of
+the replaced part.
 -/
 import CtyModel.Props.C11
 import CtyModel.Lemmas.CoversWeaken
 import CtyModel.Lemmas.C12Funcs
+import CtyModel.Lemmas.d12bLeaf
 namespace CtyModel
 namespace C12
 open Fn Std
@@ -140,17 +159,24 @@ theorem framework_shortcircuit_sound (spec : Spec) (tf : TypeFn) (impl : ImplFn)
   · have hco : ¬ ({ spec with refine := none } : Spec).countOK os.length = true := hc
     simp [hco] at hrt
 
-/-- Instance for the stdlib: every function of the regenerated parameter table whose source
-says `Type: function.StaticReturnType(T)` — whatever its `Impl` does. -/
-theorem stdlib_static_shortcircuit_sound (s : Generated.StdSpec) (_hs : s ∈ Generated.stdlibSpecs)
-    (T : Ty) (hw : Ty.wf T = true) (impl : ImplFn) (os ws : List Value) (r u : Value)
+/-- Instance for the stdlib, quantified over the regenerated TABLES: every entry of the syntax table whose
+source says `Type: function.StaticReturnType(e)` — with its parameter declarations from the parameter table,
+the declared type `T` read off `e` and the `Type` callback `Std.tfOf` assigns to the entry — whatever its
+`Impl` does.  (A function added to or changed in cty/function/stdlib changes what this says; the hypotheses
+`s ∈ stdlibSpecs`, `sy.var = s.var` can be met for every entry: C11 `every_syntax_entry_has_spec`.) -/
+theorem stdlib_static_shortcircuit_sound (sy : Generated.StdSyntax) (hsy : sy ∈ Generated.stdlibSyntax)
+    (s : Generated.StdSpec) (_hs : s ∈ Generated.stdlibSpecs) (_hv : sy.var = s.var)
+    (e : String) (he : sy.staticType = some e) (E : Stdlib.Env)
+    (impl : ImplFn) (os ws : List Value) (r u : Value)
     (hmo : ∀ a ∈ os, a.containsMarked = false) (hmw : ∀ a ∈ ws, a.containsMarked = false)
-    (hdyn : ∀ a ∈ os, a.ty.isDyn = false) (hcov : coversAll ws os = true) (hrwf : Ty.wf r.ty = true)
-    (hr : (callUnrefined (toSpec s) (C11.staticType T) impl os).1 = .ok r)
-    (hu : (callUnrefined (toSpec s) (C11.staticType T) impl ws).1 = .ok u)
-    (hno : ∀ as rt, Event.impl as rt ∉ (callUnrefined (toSpec s) (C11.staticType T) impl ws).2) :
-    Covers u r = true :=
-  framework_shortcircuit_sound _ _ impl os ws r u (fun _ t ht => by cases ht; exact hw)
+    (hdyn : ∀ a ∈ os, a.ty.isDyn = false) (hcov : coversAll ws os = true) (hrwf : Ty.wf r.ty = true) :
+    ∃ T tf, staticTy? e = some T ∧ tfOf E sy = some tf ∧
+      ((callUnrefined (toSpec s) tf impl os).1 = .ok r → (callUnrefined (toSpec s) tf impl ws).1 = .ok u →
+       (∀ as rt, Event.impl as rt ∉ (callUnrefined (toSpec s) tf impl ws).2) → Covers u r = true) := by
+  obtain ⟨T, hT, htf⟩ := C11.tfOf_static E sy hsy e he
+  refine ⟨T, C11.staticType T, hT, htf, fun hr hu hno => ?_⟩
+  have hw := C11.staticTy_wf e T hT
+  exact framework_shortcircuit_sound _ _ impl os ws r u (fun _ t ht => by cases ht; exact hw)
     (static_typeMonoW T) hmo hmw hdyn hcov hrwf hr hu hno
 
 /-- The stdlib's `refineNonNull` on top of the short-circuit: an unknown refined "not null"
@@ -205,15 +231,20 @@ theorem no_failure_before_impl (spec : Spec) (tf : TypeFn) (impl : ImplFn) (os w
 theorem weaken_keeps_type {o w : Value} (h : Weaken o w) : w.ty = o.ty ∨ w.ty.isDyn = true :=
   C12L.weaken_tyKept h
 
-/-- Instance for the stdlib: every function of the regenerated parameter table whose source says
-`Type: function.StaticReturnType(T)`, whatever its `Impl` does. -/
-theorem stdlib_static_no_failure (s : Generated.StdSpec) (_hs : s ∈ Generated.stdlibSpecs) (T : Ty)
+/-- Instance for the stdlib, quantified over the regenerated tables (as `stdlib_static_shortcircuit_sound`):
+every statically typed entry, whatever its `Impl` does. -/
+theorem stdlib_static_no_failure (sy : Generated.StdSyntax) (hsy : sy ∈ Generated.stdlibSyntax)
+    (s : Generated.StdSpec) (_hs : s ∈ Generated.stdlibSpecs) (_hv : sy.var = s.var)
+    (e : String) (he : sy.staticType = some e) (E : Stdlib.Env)
     (impl : ImplFn) (os ws : List Value) (r : Value)
     (hmo : ∀ a ∈ os, a.containsMarked = false) (hmw : ∀ a ∈ ws, a.containsMarked = false)
-    (hcov : coversAll ws os = true) (hty : TyKept ws os)
-    (hr : (callUnrefined (toSpec s) (C11.staticType T) impl os).1 = .ok r) :
-    (∃ r', (callUnrefined (toSpec s) (C11.staticType T) impl ws).1 = .ok r') ∨
-    (∃ rt, Event.impl ws rt ∈ (callUnrefined (toSpec s) (C11.staticType T) impl ws).2 ∧ ImplFailsAt impl ws rt) := by
+    (hcov : coversAll ws os = true) (hty : TyKept ws os) :
+    ∃ T tf, staticTy? e = some T ∧ tfOf E sy = some tf ∧
+      ((callUnrefined (toSpec s) tf impl os).1 = .ok r →
+        (∃ r', (callUnrefined (toSpec s) tf impl ws).1 = .ok r') ∨
+        (∃ rt, Event.impl ws rt ∈ (callUnrefined (toSpec s) tf impl ws).2 ∧ ImplFailsAt impl ws rt)) := by
+  obtain ⟨T, hT, htf⟩ := C11.tfOf_static E sy hsy e he
+  refine ⟨T, C11.staticType T, hT, htf, fun hr => ?_⟩
   rcases no_failure_before_impl _ _ impl os ws r (static_typeMonoW T) hmo hmw hcov hty hr with h | ⟨rt, _, h2, h3⟩
   · exact Or.inl h
   · exact Or.inr ⟨rt, h2, h3⟩
@@ -325,6 +356,779 @@ theorem known_in_known_out_hasindex (c k r : Value) (hc : c.whollyKnown = true) 
   · left
     exact hasIndex_known_partial c k r hc hk htc htk h
 
+/-! ### per-function soundness (slice d12b): from `Impl` to `Call`, then function by function
+
+The part of the property that is each function's own doing.  `ImplSoundAt tf impl os ws` is the obligation on
+the callback; `impl_soundness_lifts_to_call` is the composition with the framework (for ALL specs); the
+`sound_<fn>` theorems discharge the obligation for the modelled callbacks (Stdlib/Collection.lean — the
+same definitions the C12/C13 correspondence diffs against the real functions on weakened arguments) and
+state the clause "the weakened call does not fail and its result admits the concrete result" about
+`Function.Call` itself (before the declared `refineNonNull`, which `call_refined_covers` adds). -/
+
+/-- the obligation on an `Impl` callback, relative to its `Type` callback, on one pair of argument lists -/
+def ImplSoundAt := D12b.ImplSoundAt
+/-- the weakened arguments pass the per-argument checks of `returnTypeForValues` -/
+def Passes := D12b.Passes
+/-- no weakened argument is an unknown its parameter refuses -/
+def ReachesImpl := D12b.ReachesImpl
+/-- the `Type` callback does not fail on the weakened arguments and its answer admits the concrete answer -/
+def TypeMonoAt := D12b.TypeMonoAt
+
+/-- **From `Impl` to `Call`, for all specs and callbacks** (clauses 1 and 2 of the property together).
+Concrete arguments known at the top, nothing marked, the weakened arguments admit the concrete ones and keep
+their types or take the placeholder.  If `Type` is monotone on this pair and `Impl` is sound on it — both
+only asked for when the weakened arguments get that far — the weakened `Call` SUCCEEDS and its result
+admits the concrete result.  `hrwf`, `hrefl`: the concrete result has a well-formed type and admits itself
+(true of every value cty builds: `covers_refl`). -/
+theorem impl_soundness_lifts_to_call (spec : Spec) (tf : TypeFn) (impl : ImplFn) (os ws : List Value) (r : Value)
+    (hm : Passes spec ws → TypeMonoAt tf os ws) (hTw : ∀ t, tf ws = .ok t → Ty.wf t = true)
+    (hko : ∀ a ∈ os, a.isKnown = true)
+    (hmo : ∀ a ∈ os, a.containsMarked = false) (hmw : ∀ a ∈ ws, a.containsMarked = false)
+    (hcov : coversAll ws os = true) (hty : TyKept ws os) (hrwf : Ty.wf r.ty = true) (hrefl : Covers r r = true)
+    (hi : Passes spec ws → ReachesImpl spec ws → ImplSoundAt tf impl os ws)
+    (hr : (callUnrefined spec tf impl os).1 = .ok r) :
+    ∃ r', (callUnrefined spec tf impl ws).1 = .ok r' ∧ Covers r' r = true :=
+  D12b.call_sound_of_impl spec tf impl os ws r hm hTw hko hmo hmw hcov hty hrwf hrefl hi hr
+
+/-- `Covers` is reflexive on values without a `.bad` payload node (a Go kind the type cannot have: C06) -/
+theorem covers_refl (r : Value) (h : D12b.okP r.v.stripMarks = true) : Covers r r = true := D12b.covers_refl r h
+
+/-- a weakening that is itself wholly known IS the value it weakens (same type, nothing marked, no set inside):
+what makes the `if !arg.IsWhollyKnown() { return cty.UnknownVal(retType) }` guards sound -/
+theorem wholly_known_weakening_is_identity {w o : Value} (hty : w.ty = o.ty) (hmw : w.containsMarked = false)
+    (hmo : o.containsMarked = false) (hk : w.whollyKnown = true) (hs : D12b.noSet w.v = true)
+    (hc : CoversX w o = true) : w = o := D12b.coversX_wk_eq hty hmw hmo hk hs hc
+
+theorem one_arg_cover {w o : Value} (hc : CoversX w o = true) : coversAll [w] [o] = true := by
+  simp [coversAll, hc]
+
+/-- **`length`** (`LengthFunc`: `Impl` is `Value.Length`; the parameter accepts unknown and dynamically
+typed arguments, so `Impl` sees every weakening).  The weakened call succeeds and answers the concrete
+length, or — for an unknown collection — the range of its length refinement, or — for a set holding
+unknowns — `[1, number of members]`: each admits the concrete length.  Side conditions are those of
+C01 `sound_length_partial` (`hwdyn`: a weakening of the placeholder type is unknown; `SetCountOK`: a weakened
+set all of whose members are known has as many members as the set it stands for). -/
+theorem sound_length (o w r : Value) (hk : o.whollyKnown = true) (hfo : o.wfc = true) (hfw : w.wfc = true)
+    (hmo : o.containsMarked = false) (hmw : w.containsMarked = false)
+    (hwdyn : w.ty = .dyn → w.isKnown = false) (hcount : SetCountOK w.unmark o.unmark = true)
+    (hty : w.ty = o.ty ∨ w.ty.isDyn = true) (hc : CoversX w o = true) (hrefl : Covers r r = true)
+    (hr : (callUnrefined Stdlib.lengthSpec Stdlib.lengthType Stdlib.lengthImpl [o]).1 = .ok r) :
+    ∃ r', (callUnrefined Stdlib.lengthSpec Stdlib.lengthType Stdlib.lengthImpl [w]).1 = .ok r' ∧ Covers r' r = true := by
+  have hrwf : Ty.wf r.ty = true := by
+    rcases known_args_impl_value _ _ _ [o] r (by simpa using hk) (by simpa using hmo) hr with h | ⟨rt, _, h⟩
+    · rw [h]; rfl
+    · simp only [Stdlib.lengthImpl] at h
+      rw [D12b.length_ty h]; rfl
+  exact impl_soundness_lifts_to_call _ _ _ [o] [w] r (fun _ => D12b.lengthType_mono hty)
+    (fun t ht => by rw [D12b.lengthType_number ht]; rfl)
+    (by simpa using C12L.whollyKnown_isKnown hk) (by simpa using hmo) (by simpa using hmw)
+    (one_arg_cover hc) ⟨hty, trivial⟩ hrwf hrefl
+    (fun _ _ => D12b.length_implSound o w hk hfo hfw hwdyn hcount hc) hr
+
+/-- **`compact`** (guard `if !listVal.IsWhollyKnown() { return cty.UnknownVal(retType) }`): a list with an
+unknown element is answered by the unknown list of strings; a wholly known weakening is the list itself. -/
+theorem sound_compact (E : Stdlib.Env) (o w r : Value) (hk : o.whollyKnown = true)
+    (hmo : o.containsMarked = false) (hmw : w.containsMarked = false) (hs : D12b.noSet w.v = true)
+    (hty : w.ty = o.ty ∨ w.ty.isDyn = true) (hc : CoversX w o = true)
+    (hrwf : Ty.wf r.ty = true) (hrefl : Covers r r = true)
+    (hr : (callUnrefined Stdlib.compactSpec Stdlib.compactType (Stdlib.compactImpl E) [o]).1 = .ok r) :
+    ∃ r', (callUnrefined Stdlib.compactSpec Stdlib.compactType (Stdlib.compactImpl E) [w]).1 = .ok r' ∧
+      Covers r' r = true :=
+  impl_soundness_lifts_to_call _ _ _ [o] [w] r (fun _ => D12b.typeMonoAt_of_eq rfl)
+    (fun t ht => by cases ht; rfl)
+    (by simpa using C12L.whollyKnown_isKnown hk) (by simpa using hmo) (by simpa using hmw)
+    (one_arg_cover hc) ⟨hty, trivial⟩ hrwf hrefl
+    (fun hp _ => D12b.compact_implSound E o w (D12b.ty_kept_of_passes_nodyn (spec := Stdlib.compactSpec) rfl hp hty) hmw hmo hs hc) hr
+
+/-- **`distinct`** (same guard) -/
+theorem sound_distinct (E : Stdlib.Env) (o w r : Value) (hk : o.whollyKnown = true) (hwf : Ty.wf o.ty = true)
+    (hmo : o.containsMarked = false) (hmw : w.containsMarked = false) (hs : D12b.noSet w.v = true)
+    (hty : w.ty = o.ty ∨ w.ty.isDyn = true) (hc : CoversX w o = true)
+    (hrwf : Ty.wf r.ty = true) (hrefl : Covers r r = true)
+    (hr : (callUnrefined Stdlib.distinctSpec Stdlib.distinctType (Stdlib.distinctImpl E) [o]).1 = .ok r) :
+    ∃ r', (callUnrefined Stdlib.distinctSpec Stdlib.distinctType (Stdlib.distinctImpl E) [w]).1 = .ok r' ∧
+      Covers r' r = true :=
+  impl_soundness_lifts_to_call _ _ _ [o] [w] r
+    (fun hp => D12b.typeMonoAt_of_eq (by
+      simp [Stdlib.distinctType, D12b.ty_kept_of_passes_nodyn (spec := Stdlib.distinctSpec) rfl hp hty]))
+    (fun t ht => by
+      simp only [Stdlib.distinctType] at ht
+      cases ht
+      rcases hty with h | h
+      · rw [h]; exact hwf
+      · cases hw : w.ty <;> simp_all [Ty.isDyn, Ty.wf])
+    (by simpa using C12L.whollyKnown_isKnown hk) (by simpa using hmo) (by simpa using hmw)
+    (one_arg_cover hc) ⟨hty, trivial⟩ hrwf hrefl
+    (fun hp _ => D12b.distinct_implSound E o w (D12b.ty_kept_of_passes_nodyn (spec := Stdlib.distinctSpec) rfl hp hty) hmw hmo hs hc) hr
+
+/-- same type, or `cty.DynamicVal` (an UNKNOWN of the placeholder type), position by position — the two
+constructors of `Weaken` (`TyKept` also lets the known null of the placeholder type through) -/
+def TyKeptU := D12b.TyKeptU
+
+/-- **`coalescelist`** (variadic, `AllowUnknown`, `AllowDynamicType`, `AllowNull`): the first non-empty list or
+tuple; an unknown argument met first gives the unknown of the predicted type (the placeholder when argument
+types differ or an argument is unknown); an argument known at the top is returned with its unknown members. -/
+theorem sound_coalescelist (os ws : List Value) (r : Value) (hk : ∀ a ∈ os, a.whollyKnown = true)
+    (hmo : ∀ a ∈ os, a.containsMarked = false) (hmw : ∀ a ∈ ws, a.containsMarked = false)
+    (hwf : ∀ a ∈ ws, Ty.wf a.ty = true)
+    (hcov : coversAll ws os = true) (hty : TyKeptU ws os) (hrwf : Ty.wf r.ty = true) (hrefl : Covers r r = true)
+    (hr : (callUnrefined Stdlib.coalesceListSpec Stdlib.coalesceListType Stdlib.coalesceListImpl os).1 = .ok r) :
+    ∃ r', (callUnrefined Stdlib.coalesceListSpec Stdlib.coalesceListType Stdlib.coalesceListImpl ws).1 = .ok r' ∧
+      Covers r' r = true :=
+  have hko : ∀ a ∈ os, a.isKnown = true := fun a ha => C12L.whollyKnown_isKnown (hk a ha)
+  impl_soundness_lifts_to_call _ _ _ os ws r
+    (fun _ => D12b.coalesceListType_mono hko hty (coversAll_length ws os hcov))
+    (fun _ ht => D12b.coalesceListType_wf hwf ht) hko hmo hmw hcov (D12b.TyKeptU.toTyKept hty) hrwf hrefl
+    (fun _ _ => D12b.coalescelist_implSound os ws hcov hty hko hmo hmw) hr
+
+/-- **`keys`** (`AllowUnknown`): an object's keys come from its type, known or not; a known map keeps its keys
+under weakening of its elements; an unknown map gives the unknown list of strings. -/
+theorem sound_keys (o w r : Value) (hk : o.whollyKnown = true)
+    (hmo : o.containsMarked = false) (hmw : w.containsMarked = false)
+    (hty : w.ty = o.ty ∨ w.ty.isDyn = true) (hc : CoversX w o = true)
+    (hrwf : Ty.wf r.ty = true) (hrefl : Covers r r = true)
+    (hr : (callUnrefined Stdlib.keysSpec Stdlib.keysType Stdlib.keysImpl [o]).1 = .ok r) :
+    ∃ r', (callUnrefined Stdlib.keysSpec Stdlib.keysType Stdlib.keysImpl [w]).1 = .ok r' ∧ Covers r' r = true :=
+  impl_soundness_lifts_to_call _ _ _ [o] [w] r
+    (fun hp => D12b.typeMonoAt_of_eq
+      (D12b.keysType_eq (D12b.ty_kept_of_passes_nodyn (spec := Stdlib.keysSpec) rfl hp hty)))
+    (fun _ ht => D12b.keysType_wf ht)
+    (by simpa using C12L.whollyKnown_isKnown hk) (by simpa using hmo) (by simpa using hmw)
+    (one_arg_cover hc) ⟨hty, trivial⟩ hrwf hrefl
+    (fun hp _ => D12b.keys_implSound o w (D12b.ty_kept_of_passes_nodyn (spec := Stdlib.keysSpec) rfl hp hty)
+      hmw hmo (C12L.whollyKnown_isKnown hk) hc) hr
+
+/-- what `coalesce` needs of `convert.Convert` (a parameter of the model, `Env.convert`): converting a
+weakening (same type) of a value succeeds when converting the value does, to a result of the same type that
+admits the concrete one (what property C08 states of the conversion model) -/
+def EnvConvertSound := D12b.EnvConvertSound
+/-- every weakened argument has the type of the argument it weakens -/
+def TyKeptS := D12b.TyKeptS
+
+/-- **`coalesce`** (variadic, `AllowUnknown`, `AllowDynamicType`, `AllowNull`): the first non-null argument
+converted to the unified type; an unknown argument met first gives the unknown of that type; a known argument
+of the unified type is returned with its unknown members.  `TyKeptS`: argument types kept (`cty.DynamicVal`
+changes the input of `convert.UnifyUnsafe`, which is a parameter here: searched). -/
+theorem sound_coalesce (E : Stdlib.Env) (hE : EnvConvertSound E) (os ws : List Value) (r : Value)
+    (hk : ∀ a ∈ os, a.whollyKnown = true)
+    (hmo : ∀ a ∈ os, a.containsMarked = false) (hmw : ∀ a ∈ ws, a.containsMarked = false)
+    (hTw : ∀ t, Stdlib.coalesceType E ws = .ok t → Ty.wf t = true)
+    (hcov : coversAll ws os = true) (hty : TyKeptS ws os) (hrwf : Ty.wf r.ty = true) (hrefl : Covers r r = true)
+    (hr : (callUnrefined Stdlib.coalesceSpec (Stdlib.coalesceType E) (Stdlib.coalesceImpl E) os).1 = .ok r) :
+    ∃ r', (callUnrefined Stdlib.coalesceSpec (Stdlib.coalesceType E) (Stdlib.coalesceImpl E) ws).1 = .ok r' ∧
+      Covers r' r = true :=
+  impl_soundness_lifts_to_call _ _ _ os ws r
+    (fun _ => D12b.typeMonoAt_of_eq (D12b.coalesceType_eq E hty)) hTw
+    (fun a ha => C12L.whollyKnown_isKnown (hk a ha)) hmo hmw hcov
+    (D12b.TyKeptU.toTyKept (D12b.TyKeptS.toU hty)) hrwf hrefl
+    (fun _ _ => D12b.coalesce_implSound E hE os ws hcov hty hmo hmw) hr
+
+/-- **`reverse`**: a list or tuple known at the top whose members are weakened is reversed member by member; a
+set holding an unknown member has no iteration order yet and the answer is the unknown list (/repo 54de46d).
+(`hset`: a set argument is weakened in a member, or not at all.) -/
+theorem sound_reverse (E : Stdlib.Env) (o w r : Value) (hk : o.whollyKnown = true) (hwf : Ty.wf w.ty = true)
+    (hmo : o.containsMarked = false) (hmw : w.containsMarked = false)
+    (hty : w.ty = o.ty ∨ w.ty.isDyn = true) (hc : CoversX w o = true)
+    (hset : Stdlib.isSetTy o.ty = true → w.whollyKnown = false ∨ w = o)
+    (hrwf : Ty.wf r.ty = true) (hrefl : Covers r r = true)
+    (hr : (callUnrefined Stdlib.reverseSpec Stdlib.reverseType (Stdlib.reverseImpl E) [o]).1 = .ok r) :
+    ∃ r', (callUnrefined Stdlib.reverseSpec Stdlib.reverseType (Stdlib.reverseImpl E) [w]).1 = .ok r' ∧
+      Covers r' r = true :=
+  impl_soundness_lifts_to_call _ _ _ [o] [w] r
+    (fun hp => D12b.typeMonoAt_of_eq
+      (D12b.reverseType_eq (D12b.ty_kept_of_passes_nodyn (spec := Stdlib.reverseSpec) rfl hp hty)))
+    (fun _ ht => D12b.reverseType_wf hwf ht)
+    (by simpa using C12L.whollyKnown_isKnown hk) (by simpa using hmo) (by simpa using hmw)
+    (one_arg_cover hc) ⟨hty, trivial⟩ hrwf hrefl
+    (fun hp hri => D12b.reverse_implSound E o w (D12b.ty_kept_of_passes_nodyn (spec := Stdlib.reverseSpec) rfl hp hty)
+      hmw hmo (D12b.known_of_reaches1 (spec := Stdlib.reverseSpec) rfl hri) hc hset) hr
+
+/-- **`values`**: the element values of a map or object known at the top, weakened or not, in key order -/
+theorem sound_values (E : Stdlib.Env) (o w r : Value) (hk : o.whollyKnown = true) (hwf : Ty.wf w.ty = true)
+    (hmo : o.containsMarked = false) (hmw : w.containsMarked = false)
+    (hty : w.ty = o.ty ∨ w.ty.isDyn = true) (hc : CoversX w o = true)
+    (hrwf : Ty.wf r.ty = true) (hrefl : Covers r r = true)
+    (hr : (callUnrefined Stdlib.valuesSpec Stdlib.valuesType (Stdlib.valuesImpl E) [o]).1 = .ok r) :
+    ∃ r', (callUnrefined Stdlib.valuesSpec Stdlib.valuesType (Stdlib.valuesImpl E) [w]).1 = .ok r' ∧
+      Covers r' r = true :=
+  impl_soundness_lifts_to_call _ _ _ [o] [w] r
+    (fun hp => D12b.typeMonoAt_of_eq
+      (D12b.valuesType_eq (D12b.ty_kept_of_passes_nodyn (spec := Stdlib.valuesSpec) rfl hp hty)))
+    (fun _ ht => D12b.valuesType_wf hwf ht)
+    (by simpa using C12L.whollyKnown_isKnown hk) (by simpa using hmo) (by simpa using hmw)
+    (one_arg_cover hc) ⟨hty, trivial⟩ hrwf hrefl
+    (fun hp hri => D12b.values_implSound E o w (D12b.ty_kept_of_passes_nodyn (spec := Stdlib.valuesSpec) rfl hp hty)
+      hmw hmo (D12b.known_of_reaches1 (spec := Stdlib.valuesSpec) rfl hri) hc) hr
+
+/-- `Equals` of the concrete / weakened needle with a concrete / weakened element: both answer and the weakened
+answer admits the concrete one (C01 `sound_equals_partial`, `sound_equals_object_partial`, … give this) -/
+def EqAt := D12b.EqAt
+/-- … for the elements of the two haystacks, in iteration order -/
+def EqPairs := D12b.EqPairs
+
+/-- **`contains`**, `_partial` in that the soundness of `Equals` on the visited pairs is a hypothesis (`EqPairs`;
+`Equals` itself is only partially sound: C01 `sound_equals_counterexample`).  Given that, the search loop is
+sound: a definite answer of the concrete call is the weakened call's answer too, unless some comparison on
+the way was unknown — then the weakened answer is unknown.  No other route to a definite answer exists in
+the modelled callback; the seeded changes `C12-contains-set-hash-lookup-fast-path` (a definite False from a
+hash lookup for a needle with an unknown inside) and `C12-contains-rawequals-fast-path…` contradict this
+theorem on their witnesses, and the correspondence sees them as model / code mismatches. -/
+theorem sound_contains_partial (E : Stdlib.Env) (oa wa on wn r : Value)
+    (hka : oa.whollyKnown = true) (hkn : on.whollyKnown = true)
+    (hmoa : oa.containsMarked = false) (hmwa : wa.containsMarked = false)
+    (hmon : on.containsMarked = false) (hmwn : wn.containsMarked = false)
+    (hca : CoversX wa oa = true) (hcn : CoversX wn on = true)
+    (hta : wa.ty = oa.ty) (htn : wn.ty = on.ty ∨ wn.ty.isDyn = true)
+    (hnull : wa.isNull = oa.isNull)
+    (hlen : ∀ l, Stdlib.lengthInt oa = .ok l → ∃ l', Stdlib.lengthInt wa = .ok l' ∧ ((l' == 0) = (l == 0)))
+    (hel : ∀ eo, Stdlib.elems E oa = .ok eo → ∃ ew, Stdlib.elems E wa = .ok ew ∧ EqPairs on wn eo ew ∧
+      (∀ a ∈ eo, a.containsMarked = false) ∧ (∀ a ∈ ew, a.containsMarked = false))
+    (hrwf : Ty.wf r.ty = true) (hrefl : Covers r r = true)
+    (hr : (callUnrefined Stdlib.containsSpec Stdlib.containsType (Stdlib.containsImpl E) [oa, on]).1 = .ok r) :
+    ∃ r', (callUnrefined Stdlib.containsSpec Stdlib.containsType (Stdlib.containsImpl E) [wa, wn]).1 = .ok r' ∧
+      Covers r' r = true :=
+  impl_soundness_lifts_to_call _ _ _ [oa, on] [wa, wn] r (fun _ => D12b.typeMonoAt_of_eq rfl)
+    (fun t ht => by cases ht; rfl)
+    (by intro a ha; simp at ha; rcases ha with rfl | rfl <;> exact C12L.whollyKnown_isKnown (by assumption))
+    (by intro a ha; simp at ha; rcases ha with rfl | rfl <;> assumption)
+    (by intro a ha; simp at ha; rcases ha with rfl | rfl <;> assumption)
+    (by simp [coversAll, hca, hcn]) ⟨Or.inl hta, htn, trivial⟩ hrwf hrefl
+    (fun _ _ => D12b.contains_implSound E oa wa on wn hta hmon hmwn (C12L.whollyKnown_isKnown hka)
+      (C12L.whollyKnown_isKnown hkn) hnull hlen hel) hr
+
+/-- the haystack left as it is (a list, tuple or SET), the needle weakened — the scenario of the seeded
+hash-lookup change: what is needed is `Equals` sound on (needle, element) for the elements of the haystack -/
+theorem sound_contains_needle (E : Stdlib.Env) (oa on wn r : Value)
+    (hka : oa.whollyKnown = true) (hkn : on.whollyKnown = true)
+    (hmoa : oa.containsMarked = false) (hmon : on.containsMarked = false) (hmwn : wn.containsMarked = false)
+    (hca : CoversX oa oa = true) (hcn : CoversX wn on = true) (htn : wn.ty = on.ty ∨ wn.ty.isDyn = true)
+    (hEq : ∀ eo, Stdlib.elems E oa = .ok eo → ∀ v ∈ eo, EqAt on wn v v)
+    (hrwf : Ty.wf r.ty = true) (hrefl : Covers r r = true)
+    (hr : (callUnrefined Stdlib.containsSpec Stdlib.containsType (Stdlib.containsImpl E) [oa, on]).1 = .ok r) :
+    ∃ r', (callUnrefined Stdlib.containsSpec Stdlib.containsType (Stdlib.containsImpl E) [oa, wn]).1 = .ok r' ∧
+      Covers r' r = true :=
+  sound_contains_partial E oa oa on wn r hka hkn hmoa hmoa hmon hmwn hca hcn rfl htn rfl
+    (fun l hl => ⟨l, hl, rfl⟩)
+    (fun eo he => ⟨eo, he, D12b.eqPairs_refl_of eo (hEq eo he), D12b.elems_clean_all E hmoa he,
+      D12b.elems_clean_all E hmoa he⟩) hrwf hrefl hr
+
+/-- **`element`** (`list[index mod length]`): the list or tuple is known at the top with weakened members, the
+index is a known number (both parameters refuse unknowns, so anything else is the framework's short-circuit);
+the member picked is the weakening of the concrete member — through C01 `sound_index`. -/
+theorem sound_element (o w oi wi r : Value) (hk : o.whollyKnown = true) (hki : oi.whollyKnown = true)
+    (hfo : o.wfc = true) (hfw : w.wfc = true)
+    (hmo : o.containsMarked = false) (hmw : w.containsMarked = false)
+    (hmoi : oi.containsMarked = false) (hmwi : wi.containsMarked = false) (hleaf : oi.v.isLeaf = true)
+    (hty : w.ty = o.ty ∨ w.ty.isDyn = true) (htyi : wi.ty = oi.ty ∨ wi.ty.isDyn = true)
+    (hc : CoversX w o = true) (hci : CoversX wi oi = true)
+    (hTw : ∀ t, Stdlib.elementType [w, wi] = .ok t → Ty.wf t = true)
+    (hrwf : Ty.wf r.ty = true) (hrefl : Covers r r = true)
+    (hr : (callUnrefined Stdlib.elementSpec Stdlib.elementType Stdlib.elementImpl [o, oi]).1 = .ok r) :
+    ∃ r', (callUnrefined Stdlib.elementSpec Stdlib.elementType Stdlib.elementImpl [w, wi]).1 = .ok r' ∧
+      Covers r' r = true := by
+  refine impl_soundness_lifts_to_call _ _ _ [o, oi] [w, wi] r ?_ hTw
+    (by intro a ha; simp at ha; rcases ha with rfl | rfl <;> exact C12L.whollyKnown_isKnown (by assumption))
+    (by intro a ha; simp at ha; rcases ha with rfl | rfl <;> assumption)
+    (by intro a ha; simp at ha; rcases ha with rfl | rfl <;> assumption)
+    (by simp [coversAll, hc, hci]) ⟨hty, htyi, trivial⟩ hrwf hrefl ?_ hr
+  · intro hp
+    obtain ⟨h1, h2⟩ := D12b.two_args_pass (spec := Stdlib.elementSpec) rfl rfl rfl hp hty htyi
+    by_cases hkwi : wi.isKnown = true
+    · exact D12b.elementType_mono h1 (Or.inl (D12b.leaf_eq hmwi hmoi h2 hci hkwi hleaf))
+    · exact D12b.elementType_mono h1 (Or.inr (by simpa using hkwi))
+  · intro hp hri
+    obtain ⟨h1, h2⟩ := D12b.two_args_pass (spec := Stdlib.elementSpec) rfl rfl rfl hp hty htyi
+    obtain ⟨hkw, hkwi⟩ := D12b.two_args_known (spec := Stdlib.elementSpec) rfl rfl rfl hri
+    have := D12b.leaf_eq hmwi hmoi h2 hci hkwi hleaf
+    subst this
+    exact D12b.element_implSound o w wi h1 hk hfo hfw hmo hmw hkw hc
+
+/-- **`sort`** (`AllowUnknown`): a list of strings that is not wholly known is answered by the unknown list of
+strings refined with the LENGTH BOUNDS of the argument's range — the number of members of a list known at
+the top, the bounds of an unknown list's own refinement, `[0, MaxInt]` otherwise; sorting keeps the length,
+so the concrete result lies within them. -/
+theorem sound_sort (E : Stdlib.Env) (o w r : Value) (hlt : o.ty = .list .string) (hk : o.whollyKnown = true)
+    (hmo : o.containsMarked = false) (hmw : w.containsMarked = false) (hs : D12b.noSet w.v = true)
+    (hfo : o.lenFits = true)
+    (hty : w.ty = o.ty ∨ w.ty.isDyn = true) (hc : CoversX w o = true)
+    (hrwf : Ty.wf r.ty = true) (hrefl : Covers r r = true)
+    (hr : (callUnrefined Stdlib.sortSpec Stdlib.sortType (Stdlib.sortImpl E) [o]).1 = .ok r) :
+    ∃ r', (callUnrefined Stdlib.sortSpec Stdlib.sortType (Stdlib.sortImpl E) [w]).1 = .ok r' ∧ Covers r' r = true :=
+  impl_soundness_lifts_to_call _ _ _ [o] [w] r (fun _ => D12b.typeMonoAt_of_eq rfl)
+    (fun t ht => by cases ht; rfl)
+    (by simpa using C12L.whollyKnown_isKnown hk) (by simpa using hmo) (by simpa using hmw)
+    (one_arg_cover hc) ⟨hty, trivial⟩ hrwf hrefl
+    (fun hp _ => D12b.sort_implSound E o w hlt (D12b.ty_kept_of_passes_nodyn (spec := Stdlib.sortSpec) rfl hp hty)
+      hk hmw hmo hs hfo hc) hr
+
+/-- the full-strength statement for `setproduct` — FALSE of the code (recorded finding
+`result-not-covered:length-lower-bound-excludes-result:SetProductFunc`) -/
+def SoundSetProduct : Prop :=
+  ∀ (E : Stdlib.Env) (os ws : List Value) (r : Value), (∀ a ∈ os, a.whollyKnown = true) →
+    (∀ a ∈ os, a.containsMarked = false) → (∀ a ∈ ws, a.containsMarked = false) → coversAll ws os = true → TyKeptS ws os →
+    (callUnrefined Stdlib.setProductSpec (Stdlib.setProductType E) (Stdlib.setProductImpl E) os).1 = .ok r →
+    ∃ r', (callUnrefined Stdlib.setProductSpec (Stdlib.setProductType E) (Stdlib.setProductImpl E) ws).1 = .ok r' ∧ Covers r' r = true
+
+def spOs : List Value := [⟨.set .number, .sset [1] [.n (.fin false 1 0 64)]⟩, ⟨.set .bool, .sset [] []⟩]
+def spWs : List Value := [⟨.set .number, .unk (.coll .f 1 1)⟩, ⟨.set .bool, .unk (.coll .f 0 2)⟩]
+
+/-- `setproduct({1}, {})` is the empty set; with both sets unknown (1 member; 0 to 2 members) the answer is an
+unknown set refined `CollectionLengthLowerBound(1)`: the second set may be empty, the bound is wrong -/
+theorem sound_setproduct_counterexample :
+    (∀ a ∈ spOs, a.whollyKnown = true) ∧ coversAll spWs spOs = true ∧ TyKeptS spWs spOs ∧
+    (callUnrefined Stdlib.setProductSpec (Stdlib.setProductType {}) (Stdlib.setProductImpl {}) spOs).1 =
+      .ok ⟨.set (.tuple [.number, .bool]), .sset [] []⟩ ∧
+    (callUnrefined Stdlib.setProductSpec (Stdlib.setProductType {}) (Stdlib.setProductImpl {}) spWs).1 =
+      .ok ⟨.set (.tuple [.number, .bool]), .unk (.coll .u 1 2)⟩ ∧
+    Covers ⟨.set (.tuple [.number, .bool]), .unk (.coll .u 1 2)⟩ ⟨.set (.tuple [.number, .bool]), .sset [] []⟩ = false :=
+  ⟨by decide, by decide, ⟨rfl, rfl, trivial⟩, by rfl, by rfl, by decide⟩
+
+theorem soundSetProduct_false : ¬ SoundSetProduct := by
+  intro h
+  obtain ⟨h1, h2, h3, h4, h5, h6⟩ := sound_setproduct_counterexample
+  obtain ⟨r', hr', hc⟩ := h {} spOs spWs _ h1 (by decide) (by decide) h2 h3 h4
+  rw [h5] at hr'
+  cases hr'
+  rw [h6] at hc
+  cases hc
+
+/-- **`lookup(map, key, default)`**, `_partial`: the first argument is a MAP (for an object the `Type` callback
+reads the attribute's type off `GetAttr` of the VALUE: searched).  A map that is not wholly known — an element
+value unknown — gives the unknown of the element type; a wholly known weakening is the map itself; the
+default, weakened or not, is returned (converted: `EnvConvertSound`) only when the key is absent. -/
+theorem sound_lookup_map_partial (E : Stdlib.Env) (hE : EnvConvertSound E) (om wm ok wk od wd r : Value) (e : Ty)
+    (hm : om.ty = .map e) (hwfe : Ty.wf e = true)
+    (hkm : om.whollyKnown = true) (hkk : ok.whollyKnown = true) (hkd : od.whollyKnown = true)
+    (hmom : om.containsMarked = false) (hmwm : wm.containsMarked = false)
+    (hmok : ok.containsMarked = false) (hmwk : wk.containsMarked = false)
+    (hmod : od.containsMarked = false) (hmwd : wd.containsMarked = false)
+    (hleaf : ok.v.isLeaf = true) (hs : D12b.noSet wm.v = true)
+    (htm : wm.ty = om.ty ∨ wm.ty.isDyn = true) (htk : wk.ty = ok.ty ∨ wk.ty.isDyn = true)
+    (htd : wd.ty = od.ty ∨ wd.ty.isDyn = true)
+    (hcm : CoversX wm om = true) (hck : CoversX wk ok = true) (hcd : CoversX wd od = true)
+    (hrwf : Ty.wf r.ty = true) (hrefl : Covers r r = true)
+    (hr : (callUnrefined Stdlib.lookupSpec (Stdlib.lookupType E) (Stdlib.lookupImpl E) [om, ok, od]).1 = .ok r) :
+    ∃ r', (callUnrefined Stdlib.lookupSpec (Stdlib.lookupType E) (Stdlib.lookupImpl E) [wm, wk, wd]).1 = .ok r' ∧
+      Covers r' r = true := by
+  have hkept : Passes Stdlib.lookupSpec [wm, wk, wd] → wm.ty = om.ty ∧ wk.ty = ok.ty ∧ wd.ty = od.ty := by
+    intro hp
+    obtain ⟨h1, h2, h3, _⟩ := D12b.firstFail_none_tyKeptS _ [wm, wk, wd] [om, ok, od] hp rfl
+      (by intro p hp; simp [Stdlib.lookupSpec, Spec.expand] at hp; rcases hp with rfl | rfl | rfl <;> rfl)
+      ⟨htm, htk, htd, trivial⟩
+    exact ⟨h1, h2, h3⟩
+  have hknown : ReachesImpl Stdlib.lookupSpec [wm, wk, wd] → wm.isKnown = true ∧ wk.isKnown = true ∧ wd.isKnown = true := by
+    intro hri
+    have := D12b.pass2_all_known _ [wm, wk, wd] hri rfl
+      (by intro p hp; simp [Stdlib.lookupSpec, Spec.expand] at hp; rcases hp with rfl | rfl | rfl <;> rfl)
+    exact ⟨this wm (by simp), this wk (by simp), this wd (by simp)⟩
+  refine impl_soundness_lifts_to_call _ _ _ [om, ok, od] [wm, wk, wd] r ?_ ?_
+    (by intro a ha; simp at ha; rcases ha with rfl | rfl | rfl <;> exact C12L.whollyKnown_isKnown (by assumption))
+    (by intro a ha; simp at ha; rcases ha with rfl | rfl | rfl <;> assumption)
+    (by intro a ha; simp at ha; rcases ha with rfl | rfl | rfl <;> assumption)
+    (by simp [coversAll, hcm, hck, hcd]) ⟨htm, htk, htd, trivial⟩ hrwf hrefl ?_ hr
+  · -- the `Type` callback: the element type, whatever the (possibly unknown) key and default are
+    intro hp
+    obtain ⟨h1, _, h3⟩ := hkept hp
+    intro t ht
+    rw [D12b.lookupType_map E hm] at ht
+    rw [D12b.lookupType_map E (h1.trans hm)]
+    cases hcv : Stdlib.convertTo E od e with
+    | ok c =>
+      rw [hcv] at ht
+      simp only [Res.ok.injEq] at ht
+      subst ht
+      obtain ⟨c', hc', _, _⟩ := D12b.convertTo_sound E hE e h3 hcd hcv
+      rw [hc']
+      exact ⟨e, rfl, fun _ hc => hc⟩
+    | err c => rw [hcv] at ht; cases ht
+    | panic c => rw [hcv] at ht; simp [Stdlib.Res.cast] at ht
+    | unmodelled => rw [hcv] at ht; simp [Stdlib.Res.cast] at ht
+  · intro t ht
+    rcases htm with h | h
+    · rw [D12b.lookupType_map E (h.trans hm)] at ht
+      cases hcv : Stdlib.convertTo E wd e <;> rw [hcv] at ht <;> simp [Stdlib.Res.cast] at ht
+      rw [← ht]; exact hwfe
+    · have : wm.ty = .dyn := by cases hw : wm.ty <;> simp_all [Ty.isDyn]
+      simp [Stdlib.lookupType, this] at ht
+  · intro hp hri
+    obtain ⟨h1, h2, h3⟩ := hkept hp
+    obtain ⟨_, hk2, _⟩ := hknown hri
+    have := D12b.leaf_eq hmwk hmok h2 hck hk2 hleaf
+    subst this
+    exact D12b.lookup_map_implSound E hE om wm wk od wd hm h1 h3 hmom hmwm hmwk hs hcm hcd
+
+/-! ### clause 3, function by function: wholly known in, wholly known out (through `Call`) -/
+
+/-- `length` (the exception of C01 — the null of the placeholder type — is refused by the parameter) -/
+theorem known_in_known_out_length (c r : Value) (hk : c.whollyKnown = true) (hm : c.containsMarked = false)
+    (hd : c.ty ≠ .dyn)
+    (hr : (callUnrefined Stdlib.lengthSpec Stdlib.lengthType Stdlib.lengthImpl [c]).1 = .ok r) :
+    r.whollyKnown = true ∨ r = Value.unknown .dyn := by
+  rcases known_args_impl_value _ _ _ [c] r (by simpa using hk) (by simpa using hm) hr with h | ⟨rt, _, h⟩
+  · exact Or.inr h
+  · exact Or.inl (length_known_partial c r hk hd h)
+
+/-- `coalescelist` and `keys`: the obligation `ImplKnownOut` of `known_in_known_out` holds of the callbacks -/
+theorem known_in_known_out_coalescelist (args : List Value) (r : Value)
+    (hk : ∀ a ∈ args, a.whollyKnown = true) (hm : ∀ a ∈ args, a.containsMarked = false)
+    (hr : (callUnrefined Stdlib.coalesceListSpec Stdlib.coalesceListType Stdlib.coalesceListImpl args).1 = .ok r) :
+    r.whollyKnown = true ∨ r = Value.unknown .dyn :=
+  known_in_known_out _ _ _ args r D12b.knownOut_coalescelist hk hm hr
+
+theorem known_in_known_out_keys (args : List Value) (r : Value)
+    (hk : ∀ a ∈ args, a.whollyKnown = true) (hm : ∀ a ∈ args, a.containsMarked = false)
+    (hr : (callUnrefined Stdlib.keysSpec Stdlib.keysType Stdlib.keysImpl args).1 = .ok r) :
+    r.whollyKnown = true ∨ r = Value.unknown .dyn :=
+  known_in_known_out _ _ _ args r D12b.knownOut_keys hk hm hr
+
+/-- `reverse`, `values`: every member of the result is a member of the argument -/
+theorem known_in_known_out_reverse_values (E : Stdlib.Env) (v r : Value) (hk : v.whollyKnown = true)
+    (hm : v.containsMarked = false) :
+    ((callUnrefined Stdlib.reverseSpec Stdlib.reverseType (Stdlib.reverseImpl E) [v]).1 = .ok r →
+      r.whollyKnown = true ∨ r = Value.unknown .dyn) ∧
+    ((callUnrefined Stdlib.valuesSpec Stdlib.valuesType (Stdlib.valuesImpl E) [v]).1 = .ok r →
+      r.whollyKnown = true ∨ r = Value.unknown .dyn) := by
+  constructor
+  · intro hr
+    rcases known_args_impl_value _ _ _ [v] r (by simpa using hk) (by simpa using hm) hr with h | ⟨rt, _, h⟩
+    · exact Or.inr h
+    · exact Or.inl (D12b.knownOut_reverse E v r rt hm hk h)
+  · intro hr
+    rcases known_args_impl_value _ _ _ [v] r (by simpa using hk) (by simpa using hm) hr with h | ⟨rt, _, h⟩
+    · exact Or.inr h
+    · exact Or.inl (D12b.knownOut_values E v r rt hm hk h)
+
+/-- **`strlen`** (`AllowUnknown`, `AllowDynamicType`; model with the unknown branch: Stdlib/d12bStrlen.lean, tied to
+`StrlenFunc.Call` on unknown arguments).  An unknown string with the refined prefix `p` gives an unknown number
+with the inclusive lower bound "grapheme clusters of `p`"; `cty.DynamicVal` gives the unknown number.  `hlaw` is
+the one thing asked of the external segmentation library (`clusters` is a parameter): a prefix the unknown can
+carry has at most as many clusters as the string — probed on every generated pair
+(`textseg:clusters-of-range-prefix-at-most-clusters-of-string`). -/
+theorem sound_strlen (clusters : String → List String) (s : String) (w r : Value) (hmw : w.containsMarked = false)
+    (hty : w.ty = .string ∨ (w.ty = .dyn ∧ w.isKnown = false)) (hc : CoversX w ⟨.string, .s s⟩ = true)
+    (hlaw : ∀ p, (p = "" ∨ Value.hasPrefix s p = true) →
+      Stdlib.clusterCount (clusters p) ≤ Stdlib.clusterCount (clusters s))
+    (hrwf : Ty.wf r.ty = true) (hrefl : Covers r r = true)
+    (hr : (callUnrefined Stdlib.strlenSpec Stdlib.strlenType (Stdlib.strlenImplU clusters) [⟨.string, .s s⟩]).1 = .ok r) :
+    ∃ r', (callUnrefined Stdlib.strlenSpec Stdlib.strlenType (Stdlib.strlenImplU clusters) [w]).1 = .ok r' ∧
+      Covers r' r = true :=
+  impl_soundness_lifts_to_call _ _ _ [⟨.string, .s s⟩] [w] r (fun _ => D12b.typeMonoAt_of_eq rfl)
+    (fun t ht => by cases ht; rfl) (by simp [Value.isKnown, Payload.isKnown, Payload.unmark1])
+    (by simp [Value.containsMarked, Payload.containsMarked]) (by simpa using hmw)
+    (one_arg_cover hc) ⟨hty.elim Or.inl (fun h => Or.inr (by rw [h.1]; rfl)), trivial⟩ hrwf hrefl
+    (fun _ _ => D12b.strlen_implSound clusters s w hty hmw hc hlaw) hr
+
+/-- **`zipmap(keys, values)`**: the keys are guarded (a keys list that is not wholly known gives the unknown of the
+predicted type — a map type for a list of values, the placeholder for a tuple, whose object type depends on the
+keys); the values, a list or tuple known at the top, may hold unknown members, which are stored under their keys
+as they are (`values.Index(i)`: C01 `sound_index`), a later duplicate key overriding an earlier one alike. -/
+theorem sound_zipmap (E : Stdlib.Env) (ok wk ov wv r : Value)
+    (hkk : ok.whollyKnown = true) (hkv : ov.whollyKnown = true) (hfo : ov.wfc = true) (hfw : wv.wfc = true)
+    (hmok : ok.containsMarked = false) (hmwk : wk.containsMarked = false)
+    (hmov : ov.containsMarked = false) (hmwv : wv.containsMarked = false) (hsk : D12b.noSet wk.v = true)
+    (htk : wk.ty = ok.ty ∨ wk.ty.isDyn = true) (htv : wv.ty = ov.ty ∨ wv.ty.isDyn = true)
+    (hck : CoversX wk ok = true) (hcv : CoversX wv ov = true)
+    (hTw : ∀ t, Stdlib.zipmapType E [wk, wv] = .ok t → Ty.wf t = true)
+    (hrwf : Ty.wf r.ty = true) (hrefl : Covers r r = true)
+    (hr : (callUnrefined Stdlib.zipmapSpec (Stdlib.zipmapType E) (Stdlib.zipmapImpl E) [ok, ov]).1 = .ok r) :
+    ∃ r', (callUnrefined Stdlib.zipmapSpec (Stdlib.zipmapType E) (Stdlib.zipmapImpl E) [wk, wv]).1 = .ok r' ∧
+      Covers r' r = true := by
+  refine impl_soundness_lifts_to_call _ _ _ [ok, ov] [wk, wv] r ?_ hTw
+    (by intro a ha; simp at ha; rcases ha with rfl | rfl <;> exact C12L.whollyKnown_isKnown (by assumption))
+    (by intro a ha; simp at ha; rcases ha with rfl | rfl <;> assumption)
+    (by intro a ha; simp at ha; rcases ha with rfl | rfl <;> assumption)
+    (by simp [coversAll, hck, hcv]) ⟨htk, htv, trivial⟩ hrwf hrefl ?_ hr
+  · intro hp
+    obtain ⟨h1, h2⟩ := D12b.two_args_pass (spec := Stdlib.zipmapSpec) rfl rfl rfl hp htk htv
+    by_cases hkw : wk.whollyKnown = true
+    · exact D12b.zipmapType_mono E h2 (Or.inl (D12b.coversX_wk_eq h1 hmwk hmok hkw hsk hck))
+    · exact D12b.zipmapType_mono E h2 (Or.inr (by simpa using hkw))
+  · intro hp hri
+    obtain ⟨h1, h2⟩ := D12b.two_args_pass (spec := Stdlib.zipmapSpec) rfl rfl rfl hp htk htv
+    obtain ⟨_, hkwv⟩ := D12b.two_args_known (spec := Stdlib.zipmapSpec) rfl rfl rfl hri
+    exact D12b.zipmap_implSound E ok wk ov wv h1 h2 hmok hmwk hmov hmwv hsk hck hkv hfo hfw hkwv hcv
+
+/-- **`concat`**, `_partial`: lists / tuples known at the top (the parameter refuses unknowns: an unknown argument
+is the framework's short-circuit, to the predicted type — the same type, or the placeholder when the tuple way
+of the `Type` callback meets an unknown list) whose MEMBERS are weakened are concatenated member by member.
+`hsame` (decidable): when the result is a list, every argument already has that list type, so that no
+`convert.Convert` — a parameter of the model — is involved.  `hns`: no argument is a set (`concat` refuses sets). -/
+theorem sound_concat_partial (E : Stdlib.Env) (os ws : List Value) (r : Value)
+    (hk : ∀ a ∈ os, a.whollyKnown = true)
+    (hmo : ∀ a ∈ os, a.containsMarked = false) (hmw : ∀ a ∈ ws, a.containsMarked = false)
+    (hns : ∀ a ∈ os, Stdlib.isSetTy a.ty = false)
+    (hsame : ∀ e, Stdlib.concatType E os = .ok (.list e) → ∀ a ∈ os, a.ty.equals (Ty.list e).stripOpt = true)
+    (hTw : ∀ t, Stdlib.concatType E ws = .ok t → Ty.wf t = true)
+    (hcov : coversAll ws os = true) (hty : TyKept ws os) (hrwf : Ty.wf r.ty = true) (hrefl : Covers r r = true)
+    (hr : (callUnrefined Stdlib.concatSpec (Stdlib.concatType E) (Stdlib.concatImpl E) os).1 = .ok r) :
+    ∃ r', (callUnrefined Stdlib.concatSpec (Stdlib.concatType E) (Stdlib.concatImpl E) ws).1 = .ok r' ∧
+      Covers r' r = true := by
+  have hko : ∀ a ∈ os, a.isKnown = true := fun a ha => C12L.whollyKnown_isKnown (hk a ha)
+  have hpair : Passes Stdlib.concatSpec ws → D12b.PairArgs ws os := by
+    intro hp
+    unfold Passes D12b.Passes at hp
+    rw [D12b.concatSpec_expand] at hp
+    exact D12b.pairArgs_of (D12b.firstFail_none_tyKeptS _ ws os hp (by simp)
+      (fun p hp' => by rw [List.eq_of_mem_replicate hp']) hty) hmw hmo hcov
+  refine impl_soundness_lifts_to_call _ _ _ os ws r ?_ hTw hko hmo hmw hcov hty hrwf hrefl ?_ hr
+  · intro hp t ht
+    rcases D12b.concatType_weaken E ws os (hpair hp) hko ht with h | ⟨_, h⟩
+    · exact ⟨t, h, fun _ hc => hc⟩
+    · exact ⟨.dyn, h, D12b.admits_dyn' t⟩
+  · intro hp hri
+    have hkw : ∀ a ∈ ws, a.isKnown = true := by
+      unfold ReachesImpl D12b.ReachesImpl at hri
+      rw [D12b.concatSpec_expand] at hri
+      exact D12b.pass2_all_known _ ws hri (by simp) (fun p hp' => by rw [List.eq_of_mem_replicate hp'])
+    exact D12b.concat_implSound E os ws (hpair hp) hko hkw hns hsame
+
+/-- **Through the declared `refineNonNull`, to `Function.Call` itself.**  For a function declaring
+`RefineResult: refineNonNull` (every `sound_<fn>` above but `lookup` / `element`, which declare none, and
+`strlen`, which adds a lower bound of its own): under the hypotheses of `impl_soundness_lifts_to_call`, the
+concrete `Call` returns `r` and EVERY value the weakened `Call` returns admits it — provided what the weakened
+call yields before the refinement is unmarked at the top and is not a known value of the placeholder type
+(`hu`: true of a mark-free call of every modelled callback), and `r` is known, non-null, mark-free, of a proper
+type with the payload kind the type prescribes (`fitsTop`: C06). -/
+theorem impl_soundness_lifts_to_refined_call (spec : Spec) (tf : TypeFn) (impl : ImplFn) (os ws : List Value) (r : Value)
+    (hrf : spec.refine = some Stdlib.refineNN)
+    (hm : Passes spec ws → TypeMonoAt tf os ws) (hTw : ∀ t, tf ws = .ok t → Ty.wf t = true)
+    (hko : ∀ a ∈ os, a.isKnown = true)
+    (hmo : ∀ a ∈ os, a.containsMarked = false) (hmw : ∀ a ∈ ws, a.containsMarked = false)
+    (hcov : coversAll ws os = true) (hty : TyKept ws os) (hrwf : Ty.wf r.ty = true) (hrefl : Covers r r = true)
+    (hi : Passes spec ws → ReachesImpl spec ws → ImplSoundAt tf impl os ws)
+    (hu : ∀ u, (callUnrefined spec tf impl ws).1 = .ok u → u.v.isMarked = false ∧ (u.ty.isDyn = false ∨ u.isKnown = false))
+    (hcl : r.containsMarked = false) (hfit : fitsTop r.ty r.v = true) (hd : r.ty.isDyn = false)
+    (hr : (callUnrefined spec tf impl os).1 = .ok r) :
+    (call spec tf impl os).1 = .ok r ∧ (∃ u, (callUnrefined spec tf impl ws).1 = .ok u) ∧
+      ∀ w, (call spec tf impl ws).1 = .ok w → Covers w r = true := by
+  obtain ⟨u, hu1, hu2⟩ := impl_soundness_lifts_to_call spec tf impl os ws r hm hTw hko hmo hmw hcov hty hrwf hrefl hi hr
+  obtain ⟨h1, h2⟩ := call_refined_covers spec tf impl os ws r u hrf hr hu1 (hu u hu1).1 (hu u hu1).2 hcl hfit hd hu2
+  exact ⟨h1, ⟨u, hu1⟩, h2⟩
+
+/-- **`length` through `Function.Call` itself** (declared refinement included): every hypothesis of
+`impl_soundness_lifts_to_refined_call` discharged.  The concrete call returns the length `r`; the weakened call
+gets to a value before the refinement, and whatever `Call` then returns admits `r`. -/
+theorem sound_length_call (o w r : Value) (hk : o.whollyKnown = true) (hfo : o.wfc = true) (hfw : w.wfc = true)
+    (hmo : o.containsMarked = false) (hmw : w.containsMarked = false)
+    (hwdyn : w.ty = .dyn → w.isKnown = false) (hcount : SetCountOK w.unmark o.unmark = true)
+    (hty : w.ty = o.ty ∨ w.ty.isDyn = true) (hc : CoversX w o = true)
+    (hr : (callUnrefined Stdlib.lengthSpec Stdlib.lengthType Stdlib.lengthImpl [o]).1 = .ok r)
+    (hrk : r.v.isLeaf = true ∧ r.containsMarked = false ∧ fitsTop r.ty r.v = true ∧ Covers r r = true) :
+    (call Stdlib.lengthSpec Stdlib.lengthType Stdlib.lengthImpl [o]).1 = .ok r ∧
+    (∃ u, (callUnrefined Stdlib.lengthSpec Stdlib.lengthType Stdlib.lengthImpl [w]).1 = .ok u) ∧
+    ∀ x, (call Stdlib.lengthSpec Stdlib.lengthType Stdlib.lengthImpl [w]).1 = .ok x → Covers x r = true := by
+  have hrt : r = Value.unknown .dyn ∨ r.ty = .number := by
+    rcases known_args_impl_value _ _ _ [o] r (by simpa using hk) (by simpa using hmo) hr with h | ⟨rt, _, h⟩
+    · exact Or.inl h
+    · simp only [Stdlib.lengthImpl] at h
+      exact Or.inr (D12b.length_ty h)
+  have hrn : r.ty = .number := by
+    rcases hrt with h | h
+    · rw [h] at hrk; exact absurd hrk.2.2.1 (by decide)
+    · exact h
+  refine impl_soundness_lifts_to_refined_call _ _ _ [o] [w] r rfl (fun _ => D12b.lengthType_mono hty)
+    (fun t ht => by rw [D12b.lengthType_number ht]; rfl)
+    (by simpa using C12L.whollyKnown_isKnown hk) (by simpa using hmo) (by simpa using hmw)
+    (one_arg_cover hc) ⟨hty, trivial⟩ (by rw [hrn]; rfl) hrk.2.2.2
+    (fun _ _ => D12b.length_implSound o w hk hfo hfw hwdyn hcount hc) ?_ hrk.2.1 hrk.2.2.1 (by rw [hrn]; rfl) hr
+  intro u hu
+  rcases D12b.callUnrefined_result_cases _ _ _ [w] u (by simpa using hmw) hu with h | ⟨rt, _, h⟩ | ⟨rt, hrt', h⟩
+  · subst h; exact ⟨rfl, Or.inr rfl⟩
+  · subst h; exact ⟨rfl, Or.inr rfl⟩
+  · simp only [Stdlib.lengthImpl] at h
+    have hnm : w.isMarked = false := D12b.clean_not_marked hmw
+    have hl : Value.lengthU w = .ok u := by
+      simpa [Value.length, Value.unMarks, hnm] using h
+    exact ⟨D12b.lengthU_unmarked hl, Or.inl (by rw [D12b.lengthU_ty hl]; rfl)⟩
+
+/-- **`hasindex`**: `Impl` is `Value.HasIndex` (C01 `sound_hasIndex`); a collection known at the top with unknown
+members answers from its shape, `cty.DynamicVal` for either argument gives the unknown boolean. -/
+theorem sound_hasindex (o w ok wk r : Value) (hk : o.whollyKnown = true) (hkk : ok.whollyKnown = true)
+    (hfo : o.wfc = true) (hfk : ok.wfc = true) (hfw : w.wfc = true) (hfwk : wk.wfc = true)
+    (hmo : o.containsMarked = false) (hmok : ok.containsMarked = false)
+    (hmw : w.containsMarked = false) (hmwk : wk.containsMarked = false)
+    (hty : w.ty = o.ty ∨ w.ty.isDyn = true) (htk : wk.ty = ok.ty ∨ wk.ty.isDyn = true)
+    (hc : CoversX w o = true) (hck : CoversX wk ok = true)
+    (hrwf : Ty.wf r.ty = true) (hrefl : Covers r r = true)
+    (hr : (callUnrefined Stdlib.hasIndexSpec Stdlib.hasIndexType Stdlib.hasIndexImpl [o, ok]).1 = .ok r) :
+    ∃ r', (callUnrefined Stdlib.hasIndexSpec Stdlib.hasIndexType Stdlib.hasIndexImpl [w, wk]).1 = .ok r' ∧
+      Covers r' r = true :=
+  impl_soundness_lifts_to_call _ _ _ [o, ok] [w, wk] r (fun _ => D12b.hasIndexType_mono hty)
+    (fun t ht => by rw [D12b.hasIndexType_bool ht]; rfl)
+    (by intro a ha; simp at ha; rcases ha with rfl | rfl <;> exact C12L.whollyKnown_isKnown (by assumption))
+    (by intro a ha; simp at ha; rcases ha with rfl | rfl <;> assumption)
+    (by intro a ha; simp at ha; rcases ha with rfl | rfl <;> assumption)
+    (by simp [coversAll, hc, hck]) ⟨hty, htk, trivial⟩ hrwf hrefl
+    (fun _ _ => D12b.hasindex_implSound o w ok wk hk hkk hfo hfk hfw hfwk hmw hmwk hc hck) hr
+
+/-- **`index`** (the function): `Impl` asks the nested `HasIndexFunc.Call` first and goes on to `Value.Index` on a
+definite True.  A collection known at the top keeps its shape under weakening of its members, so the nested
+call answers the same; `Value.Index` is C01 `sound_index`.  An unknown key (or `cty.DynamicVal` for it) is the
+framework's short-circuit: to the element type of a list or map, to the placeholder for a tuple. -/
+theorem sound_index (o w ok wk r : Value) (hk : o.whollyKnown = true) (hkk : ok.whollyKnown = true)
+    (hkd : ok.ty.isDyn = false) (hleaf : ok.v.isLeaf = true)
+    (hfo : o.wfc = true) (hfw : w.wfc = true) (hfk : ok.wfc = true)
+    (hmo : o.containsMarked = false) (hmok : ok.containsMarked = false)
+    (hmw : w.containsMarked = false) (hmwk : wk.containsMarked = false)
+    (hty : w.ty = o.ty ∨ w.ty.isDyn = true) (htk : wk.ty = ok.ty ∨ wk.ty.isDyn = true)
+    (hc : CoversX w o = true) (hck : CoversX wk ok = true) (hckk : CoversX ok ok = true)
+    (hwkd : wk.ty.isDyn = true → wk.isKnown = false)
+    (hTw : ∀ t, Stdlib.indexType [w, wk] = .ok t → Ty.wf t = true)
+    (hrwf : Ty.wf r.ty = true) (hrefl : Covers r r = true)
+    (hr : (callUnrefined Stdlib.indexSpec Stdlib.indexType Stdlib.indexImpl [o, ok]).1 = .ok r) :
+    ∃ r', (callUnrefined Stdlib.indexSpec Stdlib.indexType Stdlib.indexImpl [w, wk]).1 = .ok r' ∧
+      Covers r' r = true := by
+  have hkey : wk.isKnown = true → wk = ok := by
+    intro hkw
+    have hty' : wk.ty = ok.ty := by
+      rcases htk with h | h
+      · exact h
+      · rw [hwkd h] at hkw; cases hkw
+    exact D12b.leaf_eq hmwk hmok hty' hck hkw hleaf
+  refine impl_soundness_lifts_to_call _ _ _ [o, ok] [w, wk] r ?_ hTw
+    (by intro a ha; simp at ha; rcases ha with rfl | rfl <;> exact C12L.whollyKnown_isKnown (by assumption))
+    (by intro a ha; simp at ha; rcases ha with rfl | rfl <;> assumption)
+    (by intro a ha; simp at ha; rcases ha with rfl | rfl <;> assumption)
+    (by simp [coversAll, hc, hck]) ⟨hty, htk, trivial⟩ hrwf hrefl ?_ hr
+  · intro hp
+    have h1 := D12b.first_arg_kept (spec := Stdlib.indexSpec) (o1 := o) rfl rfl hp hty
+    by_cases hkw : wk.isKnown = true
+    · exact D12b.indexType_mono h1 (Or.inl (hkey hkw))
+    · exact D12b.indexType_mono h1 (Or.inr ⟨by simpa using hkw, htk⟩)
+  · intro hp hri
+    have h1 := D12b.first_arg_kept (spec := Stdlib.indexSpec) (o1 := o) rfl rfl hp hty
+    obtain ⟨hkw, hkwk⟩ := D12b.two_args_known (spec := Stdlib.indexSpec) rfl rfl rfl hri
+    have := hkey hkwk
+    subst this
+    exact D12b.index_implSound o w wk h1 hk hkk hkd hfo hfw hfk hmo hmw hmwk hkw hc hckk
+
+/-- **`lookup(object, key, default)`**: the `Type` callback reads the attribute's type off `GetAttr` of the VALUE —
+which depends on the object TYPE only, so a weakening of the object (or of the default) gets the same type; an
+unknown key gets the placeholder.  `Impl` as for maps: an object that is not wholly known gives the unknown of
+that type, a wholly known weakening is the object itself, the default is converted (`EnvConvertSound`) only
+when the attribute is absent. -/
+theorem sound_lookup_object (E : Stdlib.Env) (hE : EnvConvertSound E) (om wm ok wk od wd r : Value)
+    (ns : List String) (ts : List Ty) (os : List Bool) (hobj : om.ty = .object ns ts os)
+    (hkm : om.whollyKnown = true) (hkk : ok.whollyKnown = true) (hkd : od.whollyKnown = true)
+    (hmom : om.containsMarked = false) (hmwm : wm.containsMarked = false)
+    (hmok : ok.containsMarked = false) (hmwk : wk.containsMarked = false)
+    (hmod : od.containsMarked = false) (hmwd : wd.containsMarked = false)
+    (hleaf : ok.v.isLeaf = true) (hs : D12b.noSet wm.v = true)
+    (htm : wm.ty = om.ty ∨ wm.ty.isDyn = true) (htk : wk.ty = ok.ty ∨ wk.ty.isDyn = true)
+    (htd : wd.ty = od.ty ∨ wd.ty.isDyn = true)
+    (hcm : CoversX wm om = true) (hck : CoversX wk ok = true) (hcd : CoversX wd od = true)
+    (hTw : ∀ t, Stdlib.lookupType E [wm, wk, wd] = .ok t → Ty.wf t = true)
+    (hrwf : Ty.wf r.ty = true) (hrefl : Covers r r = true)
+    (hr : (callUnrefined Stdlib.lookupSpec (Stdlib.lookupType E) (Stdlib.lookupImpl E) [om, ok, od]).1 = .ok r) :
+    ∃ r', (callUnrefined Stdlib.lookupSpec (Stdlib.lookupType E) (Stdlib.lookupImpl E) [wm, wk, wd]).1 = .ok r' ∧
+      Covers r' r = true := by
+  have hkept : Passes Stdlib.lookupSpec [wm, wk, wd] → wm.ty = om.ty ∧ wk.ty = ok.ty ∧ wd.ty = od.ty := by
+    intro hp
+    obtain ⟨h1, h2, h3, _⟩ := D12b.firstFail_none_tyKeptS _ [wm, wk, wd] [om, ok, od] hp rfl
+      (by intro p hp; simp [Stdlib.lookupSpec, Spec.expand] at hp; rcases hp with rfl | rfl | rfl <;> rfl)
+      ⟨htm, htk, htd, trivial⟩
+    exact ⟨h1, h2, h3⟩
+  refine impl_soundness_lifts_to_call _ _ _ [om, ok, od] [wm, wk, wd] r ?_ hTw
+    (by intro a ha; simp at ha; rcases ha with rfl | rfl | rfl <;> exact C12L.whollyKnown_isKnown (by assumption))
+    (by intro a ha; simp at ha; rcases ha with rfl | rfl | rfl <;> assumption)
+    (by intro a ha; simp at ha; rcases ha with rfl | rfl | rfl <;> assumption)
+    (by simp [coversAll, hcm, hck, hcd]) ⟨htm, htk, htd, trivial⟩ hrwf hrefl ?_ hr
+  · intro hp
+    obtain ⟨h1, h2, h3⟩ := hkept hp
+    intro t ht
+    by_cases hkw : wk.isKnown = true
+    · have := D12b.leaf_eq hmwk hmok h2 hck hkw hleaf
+      subst this
+      exact ⟨t, D12b.lookupType_obj_eq E hobj h1 h3 hmom hmwm hcm ht, fun _ hc => hc⟩
+    · exact ⟨.dyn, D12b.lookupType_obj_unknown_key E (h1.trans hobj) (by simpa using hkw), D12b.admits_dyn' t⟩
+  · intro hp hri
+    obtain ⟨h1, h2, h3⟩ := hkept hp
+    have hkn := D12b.pass2_all_known _ [wm, wk, wd] hri rfl
+      (by intro p hp; simp [Stdlib.lookupSpec, Spec.expand] at hp; rcases hp with rfl | rfl | rfl <;> rfl)
+    have := D12b.leaf_eq hmwk hmok h2 hck (hkn wk (by simp)) hleaf
+    subst this
+    exact D12b.lookup_obj_implSound E hE om wm wk od wd hobj h1 h3 hmom hmwm hmwk hs hcm hcd
+
+/-- the full-strength statement for `sethaselement` — FALSE of the code (recorded finding
+`result-not-covered:haselement-false-for-partly-unknown-element:SetHasElementFunc`, a consequence of the C01
+finding about `Value.HasElement`).  What holds instead: C01 `sound_hasElement_partial` (set and needle kept or
+replaced as a whole) — at the level of `Call` that is the framework's short-circuit, both parameters refusing
+unknown arguments. -/
+def SoundSetHasElement : Prop :=
+  ∀ (E : Stdlib.Env) (os ws : List Value) (r : Value), (∀ a ∈ os, a.whollyKnown = true) →
+    (∀ a ∈ os, a.containsMarked = false) → (∀ a ∈ ws, a.containsMarked = false) → coversAll ws os = true → TyKeptS ws os →
+    (callUnrefined Stdlib.setHasElementSpec Stdlib.setHasElementType (Stdlib.setHasElementImpl E) os).1 = .ok r →
+    ∃ r', (callUnrefined Stdlib.setHasElementSpec Stdlib.setHasElementType (Stdlib.setHasElementImpl E) ws).1 = .ok r' ∧
+      Covers r' r = true
+
+/-- a hash oracle under which a partly unknown value hashes differently from every wholly known one (as the real
+`Value.Hash` does: the hash text of an unknown member is `?`) -/
+def sheEnv : Stdlib.Env := { hash := fun _ p => if p.whollyKnown then some 1 else some 2 }
+def sheSet : Value := ⟨.set (.list .number), .sset [1] [.seq [.n (.fin false 1 1 64), .n (.fin false 0 0 64)]]⟩
+def sheNeedle : Value := ⟨.list .number, .seq [.n (.fin false 1 1 64), .n (.fin false 0 0 64)]⟩
+def sheNeedleW : Value := ⟨.list .number, .seq [.unk .unref, .n (.fin false 0 0 64)]⟩
+
+/-- `sethaselement({[2,0]}, [2,0])` is True; with the first member of the needle unknown the answer is a definite
+False: the needle is looked up by its hash -/
+theorem sound_sethaselement_counterexample :
+    coversAll [sheSet, sheNeedleW] [sheSet, sheNeedle] = true ∧
+    (callUnrefined Stdlib.setHasElementSpec Stdlib.setHasElementType (Stdlib.setHasElementImpl sheEnv) [sheSet, sheNeedle]).1 =
+      .ok (Value.boolVal true) ∧
+    (callUnrefined Stdlib.setHasElementSpec Stdlib.setHasElementType (Stdlib.setHasElementImpl sheEnv) [sheSet, sheNeedleW]).1 =
+      .ok (Value.boolVal false) ∧
+    Covers (Value.boolVal false) (Value.boolVal true) = false :=
+  ⟨by decide, by rfl, by rfl, by decide⟩
+
+theorem soundSetHasElement_false : ¬ SoundSetHasElement := by
+  intro h
+  obtain ⟨h1, h2, h3, h4⟩ := sound_sethaselement_counterexample
+  obtain ⟨r', hr', hc⟩ := h sheEnv [sheSet, sheNeedle] [sheSet, sheNeedleW] _ (by decide) (by decide) (by decide) h1
+    ⟨rfl, rfl, trivial⟩ h2
+  rw [h3] at hr'
+  cases hr'
+  rw [h4] at hc
+  cases hc
+
+/-- **Functions of primitive arguments that refuse unknowns** — for ALL specs and callbacks: if every parameter
+says no `AllowUnknown` and the concrete arguments are strings, numbers or booleans (`isLeaf`), a weakened
+argument either is unknown, and the framework short-circuits, or IS the concrete argument: `Impl` never sees
+anything but the concrete argument list, and the call is sound whatever `Impl` does (`upper`, `lower`,
+`substr`, `trim*`, `range`, `abs`, `ceil`, …: most string, number and boolean functions of the stdlib). -/
+theorem sound_leaf_arguments (spec : Spec) (tf : TypeFn) (impl : ImplFn) (os ws : List Value) (r : Value)
+    (hm : Passes spec ws → TypeMonoAt tf os ws) (hTw : ∀ t, tf ws = .ok t → Ty.wf t = true)
+    (hk : ∀ a ∈ os, a.whollyKnown = true) (hleaf : ∀ a ∈ os, a.v.isLeaf = true)
+    (hmo : ∀ a ∈ os, a.containsMarked = false) (hmw : ∀ a ∈ ws, a.containsMarked = false)
+    (hcov : coversAll ws os = true) (hty : TyKeptU ws os)
+    (hnu : ∀ p ∈ spec.expand ws.length, p.allowUnknown = false) (hlen : (spec.expand ws.length).length = ws.length)
+    (hrwf : Ty.wf r.ty = true) (hrefl : Covers r r = true)
+    (hr : (callUnrefined spec tf impl os).1 = .ok r) :
+    ∃ r', (callUnrefined spec tf impl ws).1 = .ok r' ∧ Covers r' r = true :=
+  impl_soundness_lifts_to_call spec tf impl os ws r hm hTw (fun a ha => C12L.whollyKnown_isKnown (hk a ha)) hmo hmw hcov
+    (D12b.TyKeptU.toTyKept hty) hrwf hrefl
+    (fun _ hri => by
+      have hkn := D12b.pass2_all_known _ ws hri hlen hnu
+      rw [D12b.leaf_list_eq ws os hcov hty hkn hmw hmo hleaf]
+      exact D12b.implSoundAt_refl tf impl os) hr
+
+/-- … instantiated on the regenerated tables: every statically typed entry of the syntax table whose parameter
+declarations (parameter table) all refuse unknown arguments, called on primitive arguments — whatever its `Impl` -/
+theorem stdlib_static_leaf_functions_sound (sy : Generated.StdSyntax) (hsy : sy ∈ Generated.stdlibSyntax)
+    (s : Generated.StdSpec) (_hs : s ∈ Generated.stdlibSpecs) (_hv : sy.var = s.var)
+    (e : String) (he : sy.staticType = some e) (E : Stdlib.Env) (impl : ImplFn) (os ws : List Value) (r : Value)
+    (hk : ∀ a ∈ os, a.whollyKnown = true) (hleaf : ∀ a ∈ os, a.v.isLeaf = true)
+    (hmo : ∀ a ∈ os, a.containsMarked = false) (hmw : ∀ a ∈ ws, a.containsMarked = false)
+    (hcov : coversAll ws os = true) (hty : TyKeptU ws os)
+    (hnu : ∀ p ∈ (toSpec s).expand ws.length, p.allowUnknown = false)
+    (hlen : ((toSpec s).expand ws.length).length = ws.length)
+    (hrwf : Ty.wf r.ty = true) (hrefl : Covers r r = true) :
+    ∃ T tf, staticTy? e = some T ∧ tfOf E sy = some tf ∧
+      ((callUnrefined (toSpec s) tf impl os).1 = .ok r →
+        ∃ r', (callUnrefined (toSpec s) tf impl ws).1 = .ok r' ∧ Covers r' r = true) := by
+  obtain ⟨T, hT, htf⟩ := C11.tfOf_static E sy hsy e he
+  refine ⟨T, C11.staticType T, hT, htf, fun hr => ?_⟩
+  exact sound_leaf_arguments _ _ impl os ws r (fun _ => D12b.typeMonoAt_of_eq rfl)
+    (fun t ht => by cases ht; exact C11.staticTy_wf e T hT) hk hleaf hmo hmw hcov hty hnu hlen hrwf hrefl hr
+
 /-! ### the hypotheses are satisfiable -/
 
 example : TypeMonoW (C11.staticType (.list .string)) := static_typeMonoW _
@@ -366,6 +1170,283 @@ example : Covers ⟨.list .bool, .unk (.coll .u 1 3)⟩ ⟨.list .bool, .seq [.b
 /-- a numeric collapse: bounds `[2, 2]` become the known number 2, which still admits 2 -/
 example : Stdlib.refineNN ⟨.number, .unk (.num .u (some ⟨.fin false 2 0 64, true⟩) (some ⟨.fin false 2 0 64, true⟩))⟩ =
     some (.n (.fin false 2 0 64)) := by rfl
+
+/-! ### d12b: joint witnesses for the per-function theorems (every hypothesis discharged on a concrete,
+non-trivial pair; the conclusion is then an instance of the theorem) -/
+
+def exL : Value := ⟨.list .string, .seq [.s "a", .s "b"]⟩
+/-- `["a", "b"]` with the first element unknown -/
+def exLw : Value := ⟨.list .string, .seq [.unk .unref, .s "b"]⟩
+/-- `["a", "b"]` as an unknown list of 1 to 3 elements -/
+def exLu : Value := ⟨.list .string, .unk (.coll .f 1 3)⟩
+def exM : Value := ⟨.map .number, .smap ["k", "l"] [.n (.fin false 1 0 64), .n (.fin false 1 1 64)]⟩
+def exMw : Value := ⟨.map .number, .smap ["k", "l"] [.unk (.num .f (some ⟨.fin false 1 0 64, true⟩) none), .n (.fin false 1 1 64)]⟩
+def exS : Value := ⟨.set .number, .sset [1, 2] [.n (.fin false 1 0 64), .n (.fin false 1 1 64)]⟩
+def exSw : Value := ⟨.set .number, .sset [0, 2] [.unk .unref, .n (.fin false 1 1 64)]⟩
+
+example : ∃ r', (callUnrefined Stdlib.lengthSpec Stdlib.lengthType Stdlib.lengthImpl [exLw]).1 = .ok r' ∧
+    Covers r' (Value.intVal 2) = true :=
+  sound_length exL exLw (Value.intVal 2) (by decide) (by decide) (by decide) (by decide) (by decide)
+    (by intro h; cases h) (by decide) (Or.inl rfl) (by decide) (by decide) (by rfl)
+example : ∃ r', (callUnrefined Stdlib.lengthSpec Stdlib.lengthType Stdlib.lengthImpl [exLu]).1 = .ok r' ∧
+    Covers r' (Value.intVal 2) = true :=
+  sound_length exL exLu (Value.intVal 2) (by decide) (by decide) (by decide) (by decide) (by decide)
+    (by intro h; cases h) (by decide) (Or.inl rfl) (by decide) (by decide) (by rfl)
+/-- a set holding an unknown member: the length is the range `[1, 2]` -/
+example : ∃ r', (callUnrefined Stdlib.lengthSpec Stdlib.lengthType Stdlib.lengthImpl [exSw]).1 = .ok r' ∧
+    Covers r' (Value.intVal 2) = true :=
+  sound_length exS exSw (Value.intVal 2) (by decide) (by decide) (by decide) (by decide) (by decide)
+    (by intro h; cases h) (by decide) (Or.inl rfl) (by decide) (by decide) (by rfl)
+/-- `cty.DynamicVal` for the list -/
+example : ∃ r', (callUnrefined Stdlib.lengthSpec Stdlib.lengthType Stdlib.lengthImpl [Value.dynVal]).1 = .ok r' ∧
+    Covers r' (Value.intVal 2) = true :=
+  sound_length exL Value.dynVal (Value.intVal 2) (by decide) (by decide) (by decide) (by decide) (by decide)
+    (by intro _; rfl) (by decide) (Or.inr rfl) (by decide) (by decide) (by rfl)
+
+example : ∃ r', (callUnrefined Stdlib.compactSpec Stdlib.compactType (Stdlib.compactImpl {}) [exLw]).1 = .ok r' ∧
+    Covers r' exL = true :=
+  sound_compact {} exL exLw exL (by decide) (by decide) (by decide) (by decide) (Or.inl rfl) (by decide)
+    (by decide) (by decide) (by rfl)
+example : ∃ r', (callUnrefined Stdlib.distinctSpec Stdlib.distinctType (Stdlib.distinctImpl {}) [exLw]).1 = .ok r' ∧
+    Covers r' exL = true :=
+  sound_distinct {} exL exLw exL (by decide) (by decide) (by decide) (by decide) (by decide) (Or.inl rfl) (by decide)
+    (by decide) (by decide) (by rfl)
+
+/-- `coalescelist([], ["a","b"])` with the second list partly unknown, and with the first list unknown -/
+example : ∃ r', (callUnrefined Stdlib.coalesceListSpec Stdlib.coalesceListType Stdlib.coalesceListImpl
+      [⟨.list .string, .seq []⟩, exLw]).1 = .ok r' ∧ Covers r' exL = true :=
+  sound_coalescelist [⟨.list .string, .seq []⟩, exL] [⟨.list .string, .seq []⟩, exLw] exL (by decide) (by decide) (by decide)
+    (by decide) (by decide) ⟨Or.inl rfl, Or.inl rfl, trivial⟩ (by decide) (by decide) (by rfl)
+example : ∃ r', (callUnrefined Stdlib.coalesceListSpec Stdlib.coalesceListType Stdlib.coalesceListImpl
+      [⟨.list .string, .unk (.coll .f 0 0)⟩, exL]).1 = .ok r' ∧ Covers r' exL = true :=
+  sound_coalescelist [⟨.list .string, .seq []⟩, exL] [⟨.list .string, .unk (.coll .f 0 0)⟩, exL] exL (by decide) (by decide)
+    (by decide) (by decide) (by decide) ⟨Or.inl rfl, Or.inl rfl, trivial⟩ (by decide) (by decide) (by rfl)
+
+/-- `keys` of a map with an unknown element value, and of an unknown map -/
+example : ∃ r', (callUnrefined Stdlib.keysSpec Stdlib.keysType Stdlib.keysImpl [exMw]).1 = .ok r' ∧
+    Covers r' ⟨.list .string, .seq [.s "k", .s "l"]⟩ = true :=
+  sound_keys exM exMw ⟨.list .string, .seq [.s "k", .s "l"]⟩ (by decide) (by decide) (by decide) (Or.inl rfl)
+    (by decide) (by decide) (by decide) (by rfl)
+example : ∃ r', (callUnrefined Stdlib.keysSpec Stdlib.keysType Stdlib.keysImpl [⟨.map .number, .unk (.coll .f 2 2)⟩]).1 = .ok r' ∧
+    Covers r' ⟨.list .string, .seq [.s "k", .s "l"]⟩ = true :=
+  sound_keys exM ⟨.map .number, .unk (.coll .f 2 2)⟩ ⟨.list .string, .seq [.s "k", .s "l"]⟩ (by decide) (by decide)
+    (by decide) (Or.inl rfl) (by decide) (by decide) (by decide) (by rfl)
+
+/-- `values` of the map with an unknown (bounded) element -/
+example : ∃ r', (callUnrefined Stdlib.valuesSpec Stdlib.valuesType (Stdlib.valuesImpl {}) [exMw]).1 = .ok r' ∧
+    Covers r' ⟨.list .number, .seq [.n (.fin false 1 0 64), .n (.fin false 1 1 64)]⟩ = true :=
+  sound_values {} exM exMw ⟨.list .number, .seq [.n (.fin false 1 0 64), .n (.fin false 1 1 64)]⟩ (by decide) (by decide)
+    (by decide) (by decide) (Or.inl rfl) (by decide) (by decide) (by decide) (by rfl)
+
+/-- `reverse` of the partly unknown list, and of a set holding an unknown member -/
+example : ∃ r', (callUnrefined Stdlib.reverseSpec Stdlib.reverseType (Stdlib.reverseImpl {}) [exLw]).1 = .ok r' ∧
+    Covers r' ⟨.list .string, .seq [.s "b", .s "a"]⟩ = true :=
+  sound_reverse {} exL exLw ⟨.list .string, .seq [.s "b", .s "a"]⟩ (by decide) (by decide) (by decide) (by decide) (Or.inl rfl)
+    (by decide) (by intro h; cases h) (by decide) (by decide) (by rfl)
+
+/-- the conversion law holds of an environment that converts nothing (`coalesce` of arguments of one type
+never converts) -/
+example : EnvConvertSound {} := by intro o w t r _ _ h; cases h
+example : ∃ r', (callUnrefined Stdlib.coalesceSpec (Stdlib.coalesceType { unify := fun ts => .ok ts.head? })
+      (Stdlib.coalesceImpl { unify := fun ts => .ok ts.head? }) [⟨.list .string, .null⟩, exLw]).1 = .ok r' ∧ Covers r' exL = true :=
+  sound_coalesce { unify := fun ts => .ok ts.head? } (by intro o w t r _ _ h; cases h)
+    [⟨.list .string, .null⟩, exL] [⟨.list .string, .null⟩, exLw] exL (by decide) (by decide) (by decide)
+    (by intro t h; cases h; rfl) (by decide) ⟨rfl, rfl, trivial⟩ (by decide) (by decide) (by rfl)
+
+/-- the scenario of the seeded change `C12-contains-set-hash-lookup-fast-path`: a wholly known SET of tuples,
+the needle a tuple with an unknown inside; the concrete call finds it -/
+def exHay : Value := ⟨.set (.tuple [.number, .string]), .sset [1] [.seq [.n (.fin false 1 1 64), .s "b"]]⟩
+def exNeedle : Value := ⟨.tuple [.number, .string], .seq [.n (.fin false 1 1 64), .s "b"]⟩
+def exNeedleW : Value := ⟨.tuple [.number, .string], .seq [.unk .unref, .s "b"]⟩
+
+example : ∃ r', (callUnrefined Stdlib.containsSpec Stdlib.containsType (Stdlib.containsImpl {}) [exHay, exNeedleW]).1 = .ok r' ∧
+    Covers r' (Value.boolVal true) = true :=
+  sound_contains_needle {} exHay exNeedle exNeedleW (Value.boolVal true) (by decide) (by decide) (by decide) (by decide)
+    (by decide) (by decide) (by decide) (Or.inl rfl)
+    (by
+      intro eo he
+      have h : Stdlib.elems {} exHay = .ok [⟨.tuple [.number, .string], .seq [.n (.fin false 1 1 64), .s "b"]⟩] := by rfl
+      rw [h] at he
+      cases he
+      intro v hv
+      simp only [List.mem_cons, List.not_mem_nil, or_false] at hv
+      subst hv
+      exact ⟨_, _, by rfl, by rfl, by decide⟩)
+    (by decide) (by decide) (by rfl)
+
+/-- and what the model answers there: unknown, not False -/
+example : (callUnrefined Stdlib.containsSpec Stdlib.containsType (Stdlib.containsImpl {}) [exHay, exNeedleW]).1 =
+    .ok (Value.unknown .bool) := by rfl
+/-- `element(["a","b"], 2)` (index 2 mod 2 = 0) with the first element unknown: the unknown string -/
+example : ∃ r', (callUnrefined Stdlib.elementSpec Stdlib.elementType Stdlib.elementImpl [exLw, Value.intVal 2]).1 = .ok r' ∧
+    Covers r' ⟨.string, .s "a"⟩ = true :=
+  sound_element exL exLw (Value.intVal 2) (Value.intVal 2) ⟨.string, .s "a"⟩ (by decide) (by decide) (by decide) (by decide)
+    (by decide) (by decide) (by decide) (by decide) (by decide) (Or.inl rfl) (Or.inl rfl) (by decide) (by decide)
+    (by intro t h; have e : Stdlib.elementType [exLw, Value.intVal 2] = .ok .string := rfl; rw [e] at h; cases h; rfl)
+    (by decide) (by decide) (by rfl)
+
+/-- `sort(["a"])` with the list unknown of 1 to 3 members, and with its member unknown: an unknown list whose
+length range holds 1 -/
+example : ∃ r', (callUnrefined Stdlib.sortSpec Stdlib.sortType (Stdlib.sortImpl {}) [⟨.list .string, .unk (.coll .f 1 3)⟩]).1 = .ok r' ∧
+    Covers r' ⟨.list .string, .seq [.s "a"]⟩ = true :=
+  sound_sort {} ⟨.list .string, .seq [.s "a"]⟩ ⟨.list .string, .unk (.coll .f 1 3)⟩ ⟨.list .string, .seq [.s "a"]⟩ rfl (by decide)
+    (by decide) (by decide) (by decide) (by decide) (Or.inl rfl) (by decide) (by decide) (by decide) (by rfl)
+example : ∃ r', (callUnrefined Stdlib.sortSpec Stdlib.sortType (Stdlib.sortImpl {}) [⟨.list .string, .seq [.unk .unref]⟩]).1 = .ok r' ∧
+    Covers r' ⟨.list .string, .seq [.s "a"]⟩ = true :=
+  sound_sort {} ⟨.list .string, .seq [.s "a"]⟩ ⟨.list .string, .seq [.unk .unref]⟩ ⟨.list .string, .seq [.s "a"]⟩ rfl (by decide)
+    (by decide) (by decide) (by decide) (by decide) (Or.inl rfl) (by decide) (by decide) (by decide) (by rfl)
+
+/-- `lookup({k = 1, l = 2}, "k", 0)` with the value at `k` unknown: the unknown number; and with an unknown default -/
+example : ∃ r', (callUnrefined Stdlib.lookupSpec (Stdlib.lookupType {}) (Stdlib.lookupImpl {})
+      [exMw, ⟨.string, .s "k"⟩, Value.intVal 0]).1 = .ok r' ∧ Covers r' ⟨.number, .n (.fin false 1 0 64)⟩ = true :=
+  sound_lookup_map_partial {} (by intro o w t r _ _ h; cases h) exM exMw ⟨.string, .s "k"⟩ ⟨.string, .s "k"⟩ (Value.intVal 0)
+    (Value.intVal 0) ⟨.number, .n (.fin false 1 0 64)⟩ .number rfl rfl (by decide) (by decide) (by decide) (by decide) (by decide)
+    (by decide) (by decide) (by decide) (by decide) (by decide) (by decide) (Or.inl rfl) (Or.inl rfl) (Or.inl rfl)
+    (by decide) (by decide) (by decide) (by decide) (by decide) (by rfl)
+example : ∃ r', (callUnrefined Stdlib.lookupSpec (Stdlib.lookupType {}) (Stdlib.lookupImpl {})
+      [exM, ⟨.string, .s "k"⟩, Value.unknown .number]).1 = .ok r' ∧ Covers r' ⟨.number, .n (.fin false 1 0 64)⟩ = true :=
+  sound_lookup_map_partial {} (by intro o w t r _ _ h; cases h) exM exM ⟨.string, .s "k"⟩ ⟨.string, .s "k"⟩ (Value.intVal 0)
+    (Value.unknown .number) ⟨.number, .n (.fin false 1 0 64)⟩ .number rfl rfl (by decide) (by decide) (by decide) (by decide) (by decide)
+    (by decide) (by decide) (by decide) (by decide) (by decide) (by decide) (Or.inl rfl) (Or.inl rfl) (Or.inl rfl)
+    (by decide) (by decide) (by decide) (by decide) (by decide) (by rfl)
+
+
+/-- `strlen("ab")` with the string unknown (not null), and as `cty.DynamicVal` -/
+example : ∃ r', (callUnrefined Stdlib.strlenSpec Stdlib.strlenType (Stdlib.strlenImplU fun _ => ["x"]) [⟨.string, .unk (.nullable .f)⟩]).1 = .ok r' ∧
+    Covers r' (Value.intVal 1) = true :=
+  sound_strlen (fun _ => ["x"]) "ab" ⟨.string, .unk (.nullable .f)⟩ (Value.intVal 1) (by decide) (Or.inl rfl) (by decide)
+    (fun _ _ => Nat.le_refl _) (by decide) (by decide) (by rfl)
+example : ∃ r', (callUnrefined Stdlib.strlenSpec Stdlib.strlenType (Stdlib.strlenImplU fun _ => ["x"]) [Value.dynVal]).1 = .ok r' ∧
+    Covers r' (Value.intVal 1) = true :=
+  sound_strlen (fun _ => ["x"]) "ab" Value.dynVal (Value.intVal 1) (by decide) (Or.inr ⟨rfl, rfl⟩) (by decide)
+    (fun _ _ => Nat.le_refl _) (by decide) (by decide) (by rfl)
+/-- what the model answers for a refined prefix: the lower bound is the number of clusters of the prefix -/
+example : (callUnrefined Stdlib.strlenSpec Stdlib.strlenType (Stdlib.strlenImplU fun _ => ["a", "b"]) [⟨.string, .unk (.str .f "ab")⟩]).1 =
+    .ok ⟨.number, .unk (.num .u (some ⟨Num.ofInt 2 64, true⟩) none)⟩ := by rfl
+
+
+/-- `zipmap(["k","l"], [1, 2])` with the first value unknown, and with a key unknown -/
+example : ∃ r', (callUnrefined Stdlib.zipmapSpec (Stdlib.zipmapType {}) (Stdlib.zipmapImpl {})
+      [⟨.list .string, .seq [.s "k", .s "l"]⟩, ⟨.list .number, .seq [.unk .unref, .n (.fin false 1 1 64)]⟩]).1 = .ok r' ∧
+    Covers r' exM = true :=
+  sound_zipmap {} ⟨.list .string, .seq [.s "k", .s "l"]⟩ ⟨.list .string, .seq [.s "k", .s "l"]⟩
+    ⟨.list .number, .seq [.n (.fin false 1 0 64), .n (.fin false 1 1 64)]⟩ ⟨.list .number, .seq [.unk .unref, .n (.fin false 1 1 64)]⟩ exM
+    (by decide) (by decide) (by decide) (by decide) (by decide) (by decide) (by decide) (by decide) (by decide)
+    (Or.inl rfl) (Or.inl rfl) (by decide) (by decide)
+    (by intro t h; have e : Stdlib.zipmapType {} [⟨.list .string, .seq [.s "k", .s "l"]⟩, ⟨.list .number, .seq [.unk .unref, .n (.fin false 1 1 64)]⟩] = .ok (.map .number) := rfl
+        rw [e] at h; cases h; rfl)
+    (by decide) (by decide) (by rfl)
+example : ∃ r', (callUnrefined Stdlib.zipmapSpec (Stdlib.zipmapType {}) (Stdlib.zipmapImpl {})
+      [⟨.list .string, .seq [.unk .unref, .s "l"]⟩, ⟨.list .number, .seq [.n (.fin false 1 0 64), .n (.fin false 1 1 64)]⟩]).1 = .ok r' ∧
+    Covers r' exM = true :=
+  sound_zipmap {} ⟨.list .string, .seq [.s "k", .s "l"]⟩ ⟨.list .string, .seq [.unk .unref, .s "l"]⟩
+    ⟨.list .number, .seq [.n (.fin false 1 0 64), .n (.fin false 1 1 64)]⟩ ⟨.list .number, .seq [.n (.fin false 1 0 64), .n (.fin false 1 1 64)]⟩ exM
+    (by decide) (by decide) (by decide) (by decide) (by decide) (by decide) (by decide) (by decide) (by decide)
+    (Or.inl rfl) (Or.inl rfl) (by decide) (by decide)
+    (by intro t h; have e : Stdlib.zipmapType {} [⟨.list .string, .seq [.unk .unref, .s "l"]⟩, ⟨.list .number, .seq [.n (.fin false 1 0 64), .n (.fin false 1 1 64)]⟩] = .ok (.map .number) := rfl
+        rw [e] at h; cases h; rfl)
+    (by decide) (by decide) (by rfl)
+
+def exEnvU : Stdlib.Env := { unify := fun ts => .ok ts.head? }
+/-- `concat(["a","b"], ["b"])` with a member of the first list unknown; and of tuples -/
+example : ∃ r', (callUnrefined Stdlib.concatSpec (Stdlib.concatType exEnvU) (Stdlib.concatImpl exEnvU)
+      [exLw, ⟨.list .string, .seq [.s "b"]⟩]).1 = .ok r' ∧ Covers r' ⟨.list .string, .seq [.s "a", .s "b", .s "b"]⟩ = true :=
+  sound_concat_partial exEnvU [exL, ⟨.list .string, .seq [.s "b"]⟩] [exLw, ⟨.list .string, .seq [.s "b"]⟩]
+    ⟨.list .string, .seq [.s "a", .s "b", .s "b"]⟩ (by decide) (by decide) (by decide) (by decide)
+    (by
+      intro e h a ha
+      have e1 : Stdlib.concatType exEnvU [exL, ⟨.list .string, .seq [.s "b"]⟩] = .ok (.list .string) := rfl
+      rw [e1] at h
+      cases h
+      simp only [List.mem_cons, List.not_mem_nil, or_false] at ha
+      rcases ha with rfl | rfl <;> rfl)
+    (by
+      intro t h
+      have e1 : Stdlib.concatType exEnvU [exLw, ⟨.list .string, .seq [.s "b"]⟩] = .ok (.list .string) := rfl
+      rw [e1] at h; cases h; rfl)
+    (by decide) ⟨Or.inl rfl, Or.inl rfl, trivial⟩ (by decide) (by decide) (by rfl)
+example : ∃ r', (callUnrefined Stdlib.concatSpec (Stdlib.concatType {}) (Stdlib.concatImpl {})
+      [⟨.tuple [.number, .string], .seq [.unk .unref, .s "b"]⟩, ⟨.tuple [.bool], .seq [.b true]⟩]).1 = .ok r' ∧
+    Covers r' ⟨.tuple [.number, .string, .bool], .seq [.n (.fin false 1 1 64), .s "b", .b true]⟩ = true :=
+  sound_concat_partial {} [exNeedle, ⟨.tuple [.bool], .seq [.b true]⟩]
+    [⟨.tuple [.number, .string], .seq [.unk .unref, .s "b"]⟩, ⟨.tuple [.bool], .seq [.b true]⟩]
+    ⟨.tuple [.number, .string, .bool], .seq [.n (.fin false 1 1 64), .s "b", .b true]⟩ (by decide) (by decide) (by decide) (by decide)
+    (by
+      intro e h
+      have e1 : Stdlib.concatType {} [exNeedle, ⟨.tuple [.bool], .seq [.b true]⟩] = .ok (.tuple [.number, .string, .bool]) := rfl
+      rw [e1] at h
+      cases h)
+    (by
+      intro t h
+      have e1 : Stdlib.concatType {} [⟨.tuple [.number, .string], .seq [.unk .unref, .s "b"]⟩, ⟨.tuple [.bool], .seq [.b true]⟩] =
+        .ok (.tuple [.number, .string, .bool]) := rfl
+      rw [e1] at h; cases h; rfl)
+    (by decide) ⟨Or.inl rfl, Or.inl rfl, trivial⟩ (by decide) (by decide) (by rfl)
+
+
+/-- `length` through `Call` with its `refineNonNull`: a set holding an unknown member -/
+example : (call Stdlib.lengthSpec Stdlib.lengthType Stdlib.lengthImpl [exS]).1 = .ok (Value.intVal 2) ∧
+    (∃ u, (callUnrefined Stdlib.lengthSpec Stdlib.lengthType Stdlib.lengthImpl [exSw]).1 = .ok u) ∧
+    ∀ x, (call Stdlib.lengthSpec Stdlib.lengthType Stdlib.lengthImpl [exSw]).1 = .ok x → Covers x (Value.intVal 2) = true :=
+  sound_length_call exS exSw (Value.intVal 2) (by decide) (by decide) (by decide) (by decide) (by decide)
+    (by intro h; cases h) (by decide) (Or.inl rfl) (by decide) (by rfl) ⟨by decide, by decide, by decide, by decide⟩
+
+
+/-- `hasindex(["a","b"], 1)` with a member unknown (still True: the shape is known), and with `cty.DynamicVal` as the list -/
+example : ∃ r', (callUnrefined Stdlib.hasIndexSpec Stdlib.hasIndexType Stdlib.hasIndexImpl [exLw, Value.intVal 1]).1 = .ok r' ∧
+    Covers r' (Value.boolVal true) = true :=
+  sound_hasindex exL exLw (Value.intVal 1) (Value.intVal 1) (Value.boolVal true) (by decide) (by decide) (by decide) (by decide)
+    (by decide) (by decide) (by decide) (by decide) (by decide) (by decide) (Or.inl rfl) (Or.inl rfl) (by decide) (by decide)
+    (by decide) (by decide) (by rfl)
+example : ∃ r', (callUnrefined Stdlib.hasIndexSpec Stdlib.hasIndexType Stdlib.hasIndexImpl [Value.dynVal, Value.intVal 1]).1 = .ok r' ∧
+    Covers r' (Value.boolVal true) = true :=
+  sound_hasindex exL Value.dynVal (Value.intVal 1) (Value.intVal 1) (Value.boolVal true) (by decide) (by decide) (by decide) (by decide)
+    (by decide) (by decide) (by decide) (by decide) (by decide) (by decide) (Or.inr rfl) (Or.inl rfl) (by decide) (by decide)
+    (by decide) (by decide) (by rfl)
+
+
+/-- a non-vacuous instance of the conversion law: an environment in which conversion to the placeholder type is
+the identity (what `convert.Convert(v, cty.DynamicPseudoType)` does) and nothing else is answered -/
+example : EnvConvertSound { convert := fun v t => if t = .dyn then .ok v else .unmodelled } := by
+  intro o w t r hc hty h
+  by_cases ht : t = .dyn
+  · simp only [ht, if_true, Res.ok.injEq] at h ⊢
+    subst h
+    exact ⟨w, rfl, hty, coversX_covers hc⟩
+  · simp [ht] at h
+
+
+/-- `index(["a","b"], 0)` with that member unknown, and `index({k = 1, l = 2}, "l")` with the other element unknown -/
+example : ∃ r', (callUnrefined Stdlib.indexSpec Stdlib.indexType Stdlib.indexImpl [exLw, Value.intVal 0]).1 = .ok r' ∧
+    Covers r' ⟨.string, .s "a"⟩ = true :=
+  sound_index exL exLw (Value.intVal 0) (Value.intVal 0) ⟨.string, .s "a"⟩ (by decide) (by decide) (by decide) (by decide)
+    (by decide) (by decide) (by decide) (by decide) (by decide) (by decide) (by decide) (Or.inl rfl) (Or.inl rfl)
+    (by decide) (by decide) (by decide) (by intro h; cases h)
+    (by intro t h; have e : Stdlib.indexType [exLw, Value.intVal 0] = .ok .string := rfl; rw [e] at h; cases h; rfl)
+    (by decide) (by decide) (by rfl)
+
+def exObj : Value := ⟨.object ["a", "b"] [.number, .string] [false, false], .smap ["a", "b"] [.n (.fin false 1 0 64), .s "x"]⟩
+def exObjW : Value := ⟨.object ["a", "b"] [.number, .string] [false, false], .smap ["a", "b"] [.unk .unref, .s "x"]⟩
+/-- `lookup({a = 1, b = "x"}, "b", "d")` with the OTHER attribute unknown: the unknown string (the object is not
+wholly known) -/
+example : ∃ r', (callUnrefined Stdlib.lookupSpec (Stdlib.lookupType {}) (Stdlib.lookupImpl {})
+      [exObjW, ⟨.string, .s "b"⟩, ⟨.string, .s "d"⟩]).1 = .ok r' ∧ Covers r' ⟨.string, .s "x"⟩ = true :=
+  sound_lookup_object {} (by intro o w t r _ _ h; cases h) exObj exObjW ⟨.string, .s "b"⟩ ⟨.string, .s "b"⟩ ⟨.string, .s "d"⟩
+    ⟨.string, .s "d"⟩ ⟨.string, .s "x"⟩ _ _ _ rfl (by decide) (by decide) (by decide) (by decide) (by decide) (by decide) (by decide)
+    (by decide) (by decide) (by decide) (by decide) (Or.inl rfl) (Or.inl rfl) (Or.inl rfl) (by decide) (by decide) (by decide)
+    (by intro t h; have e : Stdlib.lookupType {} [exObjW, ⟨.string, .s "b"⟩, ⟨.string, .s "d"⟩] = .ok .string := rfl
+        rw [e] at h; cases h; rfl)
+    (by decide) (by decide) (by rfl)
+
+/-- a one-string function that refuses unknowns (the shape of `upper`, `lower`, `trimspace`, …), any `Impl`:
+the argument weakened to an unknown string -/
+example : ∃ r', (callUnrefined { params := [{ ty := .string }] } (C11.staticType .string)
+      (fun as _ => .ok (as.headD ⟨.string, .s ""⟩)) [⟨.string, .unk (.nullable .f)⟩]).1 = .ok r' ∧
+    Covers r' ⟨.string, .s "ab"⟩ = true :=
+  sound_leaf_arguments { params := [{ ty := .string }] } (C11.staticType .string) (fun as _ => .ok (as.headD ⟨.string, .s ""⟩))
+    [⟨.string, .s "ab"⟩] [⟨.string, .unk (.nullable .f)⟩] ⟨.string, .s "ab"⟩ (fun _ => D12b.typeMonoAt_of_eq rfl)
+    (fun t ht => by cases ht; rfl) (by decide) (by decide) (by decide) (by decide) (by decide) ⟨Or.inl rfl, trivial⟩
+    (by decide) rfl (by decide) (by decide) (by rfl)
 
 end C12
 end CtyModel
